@@ -142,3 +142,1913 @@ Lemma has_node_false g n : has_node g n = false <-> ~ In n (nodes g).
 Proof.
   rewrite <- has_node_In. symmetry. apply not_true_iff_false.
 Qed.
+
+(* ================================================================================================ *)
+(* 2. Sorting, well-formed graphs                                                                   *)
+(* ================================================================================================ *)
+Lemma ins_by_name_perm c l : Permutation (ins_by_name c l) (c :: l).
+Proof.
+  induction l as [|y tl IH]; cbn [ins_by_name]; [reflexivity|].
+  destruct (name_ltb (c_name y) (c_name c)); [|reflexivity].
+  rewrite IH. apply perm_swap.
+Qed.
+
+Lemma sort_by_name_perm l : Permutation (sort_by_name l) l.
+Proof.
+  induction l as [|x tl IH]; cbn [sort_by_name fold_right]; [constructor|].
+  fold (sort_by_name tl). rewrite ins_by_name_perm. constructor. exact IH.
+Qed.
+
+Lemma sort_by_name_In c l : In c (sort_by_name l) <-> In c l.
+Proof.
+  split; apply Permutation_in; [apply sort_by_name_perm | symmetry; apply sort_by_name_perm].
+Qed.
+
+Lemma filter_partition_perm {A} (f : A -> bool) l :
+  Permutation (filter f l ++ filter (fun x => negb (f x)) l) l.
+Proof.
+  induction l as [|x tl IH]; cbn [filter]; [constructor|].
+  destruct (f x); cbn [negb app].
+  - constructor. exact IH.
+  - rewrite <- Permutation_middle. constructor. exact IH.
+Qed.
+
+Lemma NoDup_app_intro {A} (l1 l2 : list A) :
+  NoDup l1 -> NoDup l2 -> (forall x, In x l1 -> ~ In x l2) -> NoDup (l1 ++ l2).
+Proof.
+  induction l1 as [|a l1 IH]; cbn; intros H1 H2 H; [exact H2|].
+  inversion H1 as [|? ? Ha H1']; subst. constructor.
+  - rewrite in_app_iff. intros [Hx|Hx]; [contradiction | apply (H a); auto].
+  - apply IH; auto.
+Qed.
+
+Definition WF (g : graph) : Prop :=
+  (exists tl, g = (Out, []) :: tl) /\ NoDup (nodes g) /\
+  (forall u a, In (u, a) g -> NoDup (map fst a) /\ forall v r, In (v, r) a -> In v (nodes g)).
+
+Lemma nodup_nodes_spec l : nodup_nodes l = true <-> NoDup l.
+Proof.
+  induction l as [|n tl IH]; cbn [nodup_nodes].
+  - split; intros; [constructor | reflexivity].
+  - rewrite andb_true_iff, negb_true_iff, IH. split.
+    + intros [H1 H2]. constructor; [|exact H2]. intros Hin.
+      assert (E : existsb (node_eqb n) tl = true).
+      { apply existsb_exists. exists n. split; [exact Hin | apply node_eqb_refl]. }
+      congruence.
+    + intros H. inversion H as [|? ? Hn Ht]; subst. split; [|exact Ht].
+      destruct (existsb (node_eqb n) tl) eqn:E; [|reflexivity].
+      apply existsb_exists in E. destruct E as [y [Hy E]]. apply node_eqb_spec in E. subst. contradiction.
+Qed.
+
+Lemma wf_graph_WF g : wf_graph g = true <-> WF g.
+Proof.
+  unfold wf_graph, WF. rewrite !andb_true_iff, nodup_nodes_spec, forallb_forall. split.
+  - intros [[H1 H2] H3]. split; [|split; [exact H2|]].
+    + destruct g as [|[[|c] [|e a]] tl]; try discriminate. exists tl. reflexivity.
+    + intros u a Hin. specialize (H3 _ Hin). cbn [fst snd] in H3. apply andb_prop in H3. destruct H3 as [H3 H4].
+      split; [apply nodup_nodes_spec; exact H3|].
+      intros v r Hv. rewrite forallb_forall in H4. specialize (H4 _ Hv). apply has_node_In in H4. exact H4.
+  - intros [[tl E] [H2 H3]]. split; [split; [subst; reflexivity | exact H2]|].
+    intros [u a] Hin. cbn [fst snd]. destruct (H3 _ _ Hin) as [H4 H5]. apply andb_true_intro. split.
+    + apply nodup_nodes_spec. exact H4.
+    + apply forallb_forall. intros [v r] Hv. apply has_node_In. cbn [fst]. eapply H5. exact Hv.
+Qed.
+
+Lemma comps_In c g : In c (comps g) <-> In (Cmt c) (nodes g).
+Proof.
+  induction g as [|[[|c'] a] tl IH]; cbn [comps nodes map fst In] in *.
+  - tauto.
+  - rewrite IH. split; [auto | intros [H|H]; [discriminate | exact H]].
+  - rewrite IH. split; [intros [H|H]; [left; congruence | auto] | intros [H|H]; [left; congruence | auto]].
+Qed.
+
+Lemma comps_NoDup g : NoDup (nodes g) -> NoDup (comps g).
+Proof.
+  induction g as [|[[|c'] a] tl IH]; cbn [comps nodes map fst]; intros H.
+  - constructor.
+  - inversion H; subst. apply IH. assumption.
+  - inversion H as [|? ? Hn Ht]; subst. constructor; [|apply IH; exact Ht].
+    rewrite comps_In. exact Hn.
+Qed.
+
+Lemma adj_of_cases g u : In (u, adj_of g u) g \/ (adj_of g u = [] /\ ~ In u (nodes g)).
+Proof.
+  induction g as [|[w a] tl IH]; cbn [adj_of nodes map fst In].
+  - right. split; [reflexivity | tauto].
+  - destruct (node_eqb w u) eqn:E.
+    + apply node_eqb_spec in E. subst. left. left. reflexivity.
+    + apply node_eqb_false in E. destruct IH as [IH|[IH1 IH2]]; [left; right; exact IH|].
+      right. split; [exact IH1|]. intros [H|H]; [contradiction | apply IH2; exact H].
+Qed.
+
+Lemma adj_comps_In c a : In c (adj_comps a) <-> exists r, In (Cmt c, r) a.
+Proof.
+  induction a as [|[[|c'] r'] tl IH]; cbn [adj_comps In].
+  - split; [tauto | intros [r []]].
+  - rewrite IH. split; intros [r H]; exists r; [right; exact H | destruct H as [H|H]; [discriminate | exact H]].
+  - rewrite IH. split.
+    + intros [H|[r H]]; [subst; exists r'; left; reflexivity | exists r; right; exact H].
+    + intros [r [H|H]]; [left; congruence | right; exists r; exact H].
+Qed.
+
+Lemma nbrs_in_comps g p c : WF g -> In c (nbrs g p) -> In c (comps g).
+Proof.
+  intros [_ [_ H]] Hc. unfold nbrs in Hc. apply (proj1 (sort_by_name_In _ _)) in Hc. apply (proj1 (adj_comps_In _ _)) in Hc.
+  destruct Hc as [r Hr]. destruct (adj_of_cases g (Cmt p)) as [Hin|[E _]].
+  - apply comps_In. eapply H; eassumption.
+  - rewrite E in Hr. destruct Hr.
+Qed.
+
+(* ================================================================================================ *)
+(* 3. bfs                                                                                           *)
+(* ================================================================================================ *)
+Lemma visit_fold l : forall q s q' s',
+  fold_left visit l (q, s) = (q', s') ->
+  (forall c, In c s' <-> In c s \/ In c l) /\ (forall c, In c q' -> In c q \/ In c l) /\
+  (NoDup s -> NoDup s') /\ (exists s2, s' = s ++ s2).
+Proof.
+  induction l as [|x tl IH]; intros q s q' s' H; cbn [fold_left] in H.
+  - injection H as <- <-. split; [|split; [|split]].
+    + intros c. cbn [In]. tauto.
+    + intros c Hc. left. exact Hc.
+    + tauto.
+    + exists []. rewrite app_nil_r. reflexivity.
+  - unfold visit at 2 in H. destruct (memc x s) eqn:E.
+    + destruct (IH _ _ _ _ H) as [H1 [H2 [H3 [s2 H4]]]]. apply memc_In in E. repeat split.
+      * intros Hc. apply H1 in Hc. cbn [In]. tauto.
+      * intros [Hc|[Hc|Hc]]; apply H1; subst; auto.
+      * intros c Hc. apply H2 in Hc. cbn [In]. tauto.
+      * exact H3.
+      * exists s2. exact H4.
+    + destruct (IH _ _ _ _ H) as [H1 [H2 [H3 [s2 H4]]]]. apply memc_false in E. repeat split.
+      * intros Hc. apply H1 in Hc. rewrite in_app_iff in Hc. cbn [In] in *. tauto.
+      * intros Hc. apply H1. rewrite in_app_iff. cbn [In] in *. tauto.
+      * intros c Hc. apply H2 in Hc. rewrite in_app_iff in Hc. cbn [In] in *. tauto.
+      * intros Hs. apply H3. apply NoDup_app_intro; [exact Hs | constructor; [tauto | constructor]|].
+        intros y Hy [Hx|[]]. subst. contradiction.
+      * exists ([x] ++ s2). rewrite H4, app_assoc. reflexivity.
+Qed.
+
+Lemma bfs_loop_spec g (P : comp -> Prop) :
+  (forall p c, In c (nbrs g p) -> P c) ->
+  forall fuel queue seen,
+    (forall c, In c seen -> P c) ->
+    (forall c, In c (bfs_loop g fuel queue seen) -> P c) /\
+    (NoDup seen -> NoDup (bfs_loop g fuel queue seen)) /\
+    (forall c, In c seen -> In c (bfs_loop g fuel queue seen)).
+Proof.
+  intros HP. induction fuel as [|f IH]; intros queue seen Hs; cbn [bfs_loop].
+  - repeat split; auto.
+  - destruct queue as [|p q]; [repeat split; auto|].
+    destruct (fold_left visit (nbrs g p) (q, seen)) as [q' seen'] eqn:E.
+    destruct (visit_fold _ _ _ _ _ E) as [H1 [_ [H3 _]]].
+    assert (Hs' : forall c, In c seen' -> P c).
+    { intros c Hc. apply H1 in Hc. destruct Hc as [Hc|Hc]; [apply Hs; exact Hc | eapply HP; exact Hc]. }
+    destruct (IH q' seen' Hs') as [I1 [I2 I3]]. repeat split.
+    + exact I1.
+    + intros Hn. apply I2, H3, Hn.
+    + intros c Hc. apply I3, H1. left. exact Hc.
+Qed.
+
+Lemma bfs_facts g src :
+  WF g -> In src (comps g) ->
+  In src (bfs g src) /\ NoDup (bfs g src) /\ (forall c, In c (bfs g src) -> In c (comps g)).
+Proof.
+  intros Hwf Hsrc. unfold bfs.
+  destruct (bfs_loop_spec g (fun c => In c (comps g)) (fun p c => nbrs_in_comps g p c Hwf)
+              (S (length g)) [src] [src]) as [H1 [H2 H3]].
+  - intros c [Hc|[]]. subst. exact Hsrc.
+  - repeat split.
+    + apply H3. left. reflexivity.
+    + apply H2. constructor; [intros [] | constructor].
+    + exact H1.
+Qed.
+
+(* ================================================================================================ *)
+(* 4. _order_compartments is a permutation of the compartments                                      *)
+(* ================================================================================================ *)
+Lemma remove_first_perm c l : In c l -> Permutation l (c :: remove_first c l).
+Proof.
+  induction l as [|x tl IH]; cbn [remove_first In]; [tauto|]. intros H.
+  destruct (comp_eqb x c) eqn:E.
+  - apply comp_eqb_spec in E. subst. reflexivity.
+  - apply comp_eqb_false in E. destruct H as [H|H]; [contradiction|].
+    rewrite (IH H) at 1. apply perm_swap.
+Qed.
+
+Lemma remove_first_length c l : length (remove_first c l) <= length l.
+Proof.
+  induction l as [|x tl IH]; cbn [remove_first length]; [lia|]. destruct (comp_eqb x c); cbn [length]; lia.
+Qed.
+
+Definition pend (ns : list comp) (cmp : comp) : list comp := if memc cmp ns then [] else [cmp].
+
+Lemma absorb_inv (U : list comp) cmp : forall conn ns rm ns' rm',
+  (forall c, In c conn -> In c U) ->
+  Permutation (ns ++ rm ++ pend ns cmp) U ->
+  fold_left (absorb cmp) conn (ns, rm) = (ns', rm') ->
+  Permutation (ns' ++ rm' ++ pend ns' cmp) U /\ (forall c, In c ns -> In c ns') /\
+  (forall c, In c conn -> In c ns') /\ length rm' <= length rm.
+Proof.
+  induction conn as [|x tl IH]; intros ns rm ns' rm' Hc HP H; cbn [fold_left] in H.
+  - injection H as <- <-. repeat split; auto. intros c [].
+  - unfold absorb at 2 in H. destruct (memc x ns) eqn:E.
+    + destruct (IH _ _ _ _ (fun c h => Hc c (or_intror h)) HP H) as [I1 [I2 [I3 I4]]].
+      repeat split; auto. intros c [Hx|Hx]; [subst; apply I2, memc_In, E | apply I3, Hx].
+    + assert (HxU : In x U) by (apply Hc; left; reflexivity).
+      assert (Hx : In x (rm ++ pend ns cmp)).
+      { apply (Permutation_in _ (Permutation_sym HP)) in HxU. rewrite in_app_iff in HxU.
+        destruct HxU as [Hx|Hx]; [apply memc_In in Hx; congruence | exact Hx]. }
+      destruct (comp_eqb x cmp) eqn:Ec.
+      * apply comp_eqb_spec in Ec. subst x.
+        assert (HP' : Permutation ((ns ++ [cmp]) ++ rm ++ pend (ns ++ [cmp]) cmp) U).
+        { unfold pend in *. rewrite E in HP.
+          assert (Em : memc cmp (ns ++ [cmp]) = true) by (apply memc_In, in_or_app; right; left; reflexivity).
+          rewrite Em, app_nil_r. rewrite <- HP. rewrite <- app_assoc.
+          apply Permutation_app_head. apply Permutation_app_comm. }
+        destruct (IH _ _ _ _ (fun c h => Hc c (or_intror h)) HP' H) as [I1 [I2 [I3 I4]]].
+        repeat split; auto.
+        -- intros c Hin. apply I2, in_or_app. left. exact Hin.
+        -- intros c [Hx'|Hx']; [subst; apply I2, in_or_app; right; left; reflexivity | apply I3, Hx'].
+      * apply comp_eqb_false in Ec.
+        assert (Hxr : In x rm).
+        { rewrite in_app_iff in Hx. destruct Hx as [Hx|Hx]; [exact Hx|].
+          unfold pend in Hx. destruct (memc cmp ns); [destruct Hx | destruct Hx as [Hx|[]]; congruence]. }
+        assert (Ep : pend (ns ++ [x]) cmp = pend ns cmp).
+        { unfold pend. destruct (memc cmp ns) eqn:Em.
+          - apply memc_In in Em. assert (Em' : memc cmp (ns ++ [x]) = true) by (apply memc_In, in_or_app; left; exact Em).
+            rewrite Em'. reflexivity.
+          - apply memc_false in Em. assert (Em' : memc cmp (ns ++ [x]) = false).
+            { apply memc_false. rewrite in_app_iff. intros [Hm|[Hm|[]]]; [contradiction | congruence]. }
+            rewrite Em'. reflexivity. }
+        assert (HP' : Permutation ((ns ++ [x]) ++ remove_first x rm ++ pend (ns ++ [x]) cmp) U).
+        { rewrite Ep, <- HP, <- app_assoc. apply Permutation_app_head. cbn [app].
+          rewrite (remove_first_perm x rm Hxr) at 2. reflexivity. }
+        destruct (IH _ _ _ _ (fun c h => Hc c (or_intror h)) HP' H) as [I1 [I2 [I3 I4]]].
+        repeat split; auto.
+        -- intros c Hin. apply I2, in_or_app. left. exact Hin.
+        -- intros c [Hx'|Hx']; [subst; apply I2, in_or_app; right; left; reflexivity | apply I3, Hx'].
+        -- pose proof (remove_first_length x rm). lia.
+Qed.
+
+Lemma order_loop_perm g (U : list comp) :
+  NoDup U ->
+  (forall c, In c U -> In c (bfs g c) /\ forall c', In c' (bfs g c) -> In c' U) ->
+  forall fuel rem ns, length rem <= fuel -> Permutation (ns ++ rem) U ->
+    Permutation (order_loop g fuel rem ns) U.
+Proof.
+  intros HU Hb. induction fuel as [|f IH]; intros rem ns Hl HP; cbn [order_loop].
+  - destruct rem; [|cbn in Hl; lia]. rewrite app_nil_r in HP. exact HP.
+  - destruct rem as [|cmp rm]; [rewrite app_nil_r in HP; exact HP|].
+    destruct (fold_left (absorb cmp) (bfs g cmp) (ns, rm)) as [ns' rm'] eqn:E.
+    assert (HcU : In cmp U).
+    { apply (Permutation_in _ HP), in_or_app. right. left. reflexivity. }
+    assert (Hnin : ~ In cmp ns).
+    { assert (Hnd : NoDup (ns ++ cmp :: rm)) by (apply (Permutation_NoDup (Permutation_sym HP)), HU).
+      apply NoDup_remove_2 in Hnd. intros Hin. apply Hnd, in_or_app. left. exact Hin. }
+    assert (HP0 : Permutation (ns ++ rm ++ pend ns cmp) U).
+    { unfold pend. apply memc_false in Hnin. rewrite Hnin. rewrite <- HP.
+      apply Permutation_app_head. symmetry. apply Permutation_cons_append. }
+    destruct (Hb _ HcU) as [Hself Hsub].
+    destruct (absorb_inv U cmp _ _ _ _ _ Hsub HP0 E) as [I1 [I2 [I3 I4]]].
+    apply IH.
+    + cbn [length] in Hl. lia.
+    + unfold pend in I1. assert (Em : memc cmp ns' = true) by (apply memc_In, I3, Hself).
+      rewrite Em, app_nil_r in I1. exact I1.
+Qed.
+
+Lemma removelast_In {A} (x : A) l : In x (removelast l) -> In x l.
+Proof.
+  induction l as [|a tl IH]; cbn [removelast]; [tauto|]. destruct tl as [|b tl']; [intros []|].
+  intros [H|H]; [left; exact H | right; apply IH; exact H].
+Qed.
+
+Lemma last_In {A} (d : A) l : l <> [] -> In (last l d) l.
+Proof.
+  induction l as [|a tl IH]; [congruence|]. intros _. cbn [last]. destruct tl as [|b tl']; [left; reflexivity|].
+  right. apply IH. discriminate.
+Qed.
+
+Lemma dosing_fold_In central cs : forall acc c,
+  In c (fold_left (dosing_step central) cs acc) -> In c acc \/ In c cs.
+Proof.
+  induction cs as [|nd tl IH]; intros acc c H; cbn [fold_left] in H; [left; exact H|].
+  apply IH in H. destruct H as [H|H]; [|right; right; exact H].
+  unfold dosing_step in H. destruct (doses_prop nd); [left; exact H|].
+  destruct (negb (name_eqb (c_name nd) (c_name central))).
+  - destruct (2 <=? length acc) eqn:E.
+    + rewrite !in_app_iff in H. destruct H as [H|[H|H]].
+      * left. apply removelast_In. exact H.
+      * destruct H as [H|[]]. right. left. exact H.
+      * destruct H as [H|[]]. subst c. left. apply last_In. apply Nat.leb_le in E.
+        destruct acc; [cbn in E; lia | discriminate].
+    + destruct H as [H|H]; [right; left; exact H | left; exact H].
+  - rewrite in_app_iff in H. destruct H as [H|[H|[]]]; [left; exact H | right; left; exact H].
+Qed.
+
+Lemma dosing_in_comps g l c : dosing_compartments g = Some l -> In c l -> In c (comps g).
+Proof.
+  unfold dosing_compartments. destruct (existsb has_doses (sort_by_name (comps g))); [|discriminate].
+  destruct (central_compartment g) as [cen|]; [|discriminate]. intros H Hc. injection H as <-.
+  apply dosing_fold_In in Hc. destruct Hc as [[]|Hc]. apply (proj1 (sort_by_name_In _ _)) in Hc. exact Hc.
+Qed.
+
+Lemma split_rest_perm (ns U : list comp) :
+  NoDup ns -> NoDup U -> (forall c, In c ns -> In c U) ->
+  Permutation (ns ++ filter (fun c => negb (memc c ns)) U) U.
+Proof.
+  intros Hn HU Hsub. apply NoDup_Permutation.
+  - apply NoDup_app_intro; [exact Hn | apply NoDup_filter, HU|].
+    intros x Hx Hf. apply filter_In in Hf. destruct Hf as [_ Hf]. apply negb_true_iff, memc_false in Hf. contradiction.
+  - exact HU.
+  - intros x. rewrite in_app_iff, filter_In, negb_true_iff. split.
+    + intros [H|[H _]]; [apply Hsub, H | exact H].
+    + intros H. destruct (memc x ns) eqn:E; [left; apply memc_In, E | right; split; [exact H | reflexivity]].
+Qed.
+
+Theorem order_perm_lemma g : WF g -> Permutation (order g) (comps g).
+Proof.
+  intros Hwf. assert (HU : NoDup (comps g)) by (apply comps_NoDup, Hwf).
+  unfold order. destruct (dosing_compartments g) as [[|d dl]|] eqn:Ed; try apply sort_by_name_perm.
+  assert (Hd : In d (comps g)) by (eapply dosing_in_comps; [exact Ed | left; reflexivity]).
+  destruct (bfs_facts g d Hwf Hd) as [B1 [B2 B3]].
+  apply order_loop_perm.
+  - exact HU.
+  - intros c Hc. destruct (bfs_facts g c Hwf Hc) as [C1 [_ C3]]. split; assumption.
+  - lia.
+  - eapply Permutation_trans; [|apply (split_rest_perm (bfs g d) (comps g) B2 HU B3)].
+    apply Permutation_app_head.
+    eapply Permutation_trans; [apply Permutation_app; apply sort_by_name_perm | apply filter_partition_perm].
+Qed.
+
+(* ================================================================================================ *)
+(* 5. Evaluation: eqs = M.A + u entrywise, the diagonal, mass balance                               *)
+(* ================================================================================================ *)
+(* [eval] reduces every intermediate result with Qred, so values are related by Qeq, not by eq:
+   [ev r fi e q] = "e is defined in r and its value is (Qeq to) q". *)
+Definition ev (r : env) (fi : finterp) (e : expr) (q : Q) : Prop :=
+  exists q', eval r fi e = Some q' /\ (q' == q)%Q.
+
+Definition qsum (l : list Q) : Q := fold_right Qplus 0%Q l.
+
+Lemma ev_of_eval r fi e q : eval r fi e = Some q -> ev r fi e q.
+Proof. intros H. exists q. split; [exact H | reflexivity]. Qed.
+
+Lemma ev_compat r fi e x y : ev r fi e x -> (x == y)%Q -> ev r fi e y.
+Proof. intros [q [H1 H2]] E. exists q. split; [exact H1 | rewrite H2; exact E]. Qed.
+
+Lemma ev_unique r fi e x y : ev r fi e x -> ev r fi e y -> (x == y)%Q.
+Proof. intros [q [H1 H2]] [q' [H3 H4]]. rewrite H1 in H3. injection H3 as <-. rewrite <- H2, H4. reflexivity. Qed.
+
+Lemma ev_num r fi q : ev r fi (Num q) q.
+Proof. apply ev_of_eval. reflexivity. Qed.
+
+Lemma ev_add r fi a b x y : ev r fi a x -> ev r fi b y -> ev r fi (Add a b) (x + y)%Q.
+Proof.
+  intros [p [H1 H2]] [q [H3 H4]]. exists (Qred (p + q)). split.
+  - cbn [eval]. rewrite H1, H3. reflexivity.
+  - rewrite Qred_correct, H2, H4. reflexivity.
+Qed.
+
+Lemma ev_mul r fi a b x y : ev r fi a x -> ev r fi b y -> ev r fi (Mul a b) (x * y)%Q.
+Proof.
+  intros [p [H1 H2]] [q [H3 H4]]. exists (Qred (p * q)). split.
+  - cbn [eval]. rewrite H1, H3. reflexivity.
+  - rewrite Qred_correct, H2, H4. reflexivity.
+Qed.
+
+Lemma ev_neg r fi a x : ev r fi a x -> ev r fi (Neg a) (- x)%Q.
+Proof.
+  intros [p [H1 H2]]. exists (- p)%Q. split.
+  - cbn [eval]. rewrite H1. reflexivity.
+  - rewrite H2. reflexivity.
+Qed.
+
+(* a left fold of Add over a list of terms *)
+Lemma ev_fold_add {A} r fi (f : A -> expr) (v : A -> Q) : forall l init a0,
+  ev r fi init a0 -> (forall x, In x l -> ev r fi (f x) (v x)) ->
+  ev r fi (fold_left (fun acc x => Add acc (f x)) l init) (a0 + qsum (map v l))%Q.
+Proof.
+  induction l as [|x tl IH]; intros init a0 H0 H; cbn [fold_left map qsum fold_right].
+  - eapply ev_compat; [exact H0 | ring].
+  - eapply ev_compat.
+    + apply (IH (Add init (f x)) (a0 + v x)%Q).
+      * apply ev_add; [exact H0 | apply H; left; reflexivity].
+      * intros y Hy. apply H. right. exact Hy.
+    + fold (qsum (map v tl)). ring.
+Qed.
+
+(* ---- finite sums over Q -------------------------------------------------------------------------- *)
+Lemma qsum_ext {A} (f g : A -> Q) l : (forall x, In x l -> (f x == g x)%Q) -> (qsum (map f l) == qsum (map g l))%Q.
+Proof.
+  induction l as [|x tl IH]; intros H; cbn [map qsum fold_right]; [reflexivity|].
+  fold (qsum (map f tl)) (qsum (map g tl)). rewrite (H x (or_introl eq_refl)), IH; [reflexivity|].
+  intros y Hy. apply H. right. exact Hy.
+Qed.
+
+Lemma qsum_plus {A} (f g : A -> Q) l : (qsum (map (fun x => f x + g x) l) == qsum (map f l) + qsum (map g l))%Q.
+Proof.
+  induction l as [|x tl IH]; cbn [map qsum fold_right]; [ring|].
+  fold (qsum (map f tl)) (qsum (map g tl)) (qsum (map (fun x => f x + g x)%Q tl)). rewrite IH. ring.
+Qed.
+
+Lemma qsum_scale {A} (f : A -> Q) (c : Q) l : (qsum (map (fun x => f x * c) l) == qsum (map f l) * c)%Q.
+Proof.
+  induction l as [|x tl IH]; cbn [map qsum fold_right]; [ring|].
+  fold (qsum (map f tl)) (qsum (map (fun x => f x * c)%Q tl)). rewrite IH. ring.
+Qed.
+
+Lemma qsum_opp {A} (f : A -> Q) l : (qsum (map (fun x => - f x) l) == - qsum (map f l))%Q.
+Proof.
+  induction l as [|x tl IH]; cbn [map qsum fold_right]; [ring|].
+  fold (qsum (map f tl)) (qsum (map (fun x => - f x)%Q tl)). rewrite IH. ring.
+Qed.
+
+Lemma qsum_zero {A} (l : list A) : (qsum (map (fun _ => 0%Q) l) == 0)%Q.
+Proof. induction l as [|x tl IH]; cbn [map qsum fold_right]; [reflexivity|]. fold (qsum (map (fun _ => 0%Q) tl)). rewrite IH. ring. Qed.
+
+Lemma qsum_swap {A B} (f : A -> B -> Q) (l1 : list A) (l2 : list B) :
+  (qsum (map (fun i => qsum (map (fun j => f i j) l2)) l1) == qsum (map (fun j => qsum (map (fun i => f i j) l1)) l2))%Q.
+Proof.
+  induction l1 as [|x tl IH]; cbn [map qsum fold_right].
+  - rewrite qsum_zero. reflexivity.
+  - fold (qsum (map (fun i => qsum (map (fun j => f i j) l2)) tl)). rewrite IH.
+    rewrite <- qsum_plus. apply qsum_ext. intros j _. reflexivity.
+Qed.
+
+(* sum over an index range of a function that is replaced at one index *)
+Lemma qsum_replace_at (f : nat -> Q) (d : Q) (j : nat) : forall n s, s <= j < s + n ->
+  (qsum (map (fun i => if Nat.eqb i j then d else f i) (seq s n)) == d + qsum (map f (seq s n)) - f j)%Q.
+Proof.
+  induction n as [|n IH]; intros s Hj; [lia|]. cbn [seq map qsum fold_right].
+  fold (qsum (map f (seq (S s) n))) (qsum (map (fun i => if Nat.eqb i j then d else f i) (seq (S s) n))).
+  destruct (Nat.eqb s j) eqn:E.
+  - apply Nat.eqb_eq in E. subst s.
+    rewrite (qsum_ext (fun i => if Nat.eqb i j then d else f i) f).
+    + ring.
+    + intros x Hx. apply in_seq in Hx. destruct (Nat.eqb x j) eqn:E'; [apply Nat.eqb_eq in E'; lia | reflexivity].
+  - apply Nat.eqb_neq in E. rewrite IH by lia. ring.
+Qed.
+
+(* ---- eqs entrywise --------------------------------------------------------------------------------- *)
+Lemma eqs_entrywise_lemma g ns r fi i (mv av : nat -> Q) (u : Q) :
+  (forall j, j < length ns -> ev r fi (matrix_entry g ns i j) (mv j)) ->
+  (forall j, j < length ns -> ev r fi (c_amount (nthc ns j)) (av j)) ->
+  ev r fi (c_input (nthc ns i)) u ->
+  ev r fi (eq_rhs_on g ns i) (qsum (map (fun j => mv j * av j) (seq 0 (length ns))) + u)%Q.
+Proof.
+  intros Hm Ha Hu. unfold eq_rhs_on. apply ev_add; [|exact Hu]. unfold row_expr.
+  eapply ev_compat.
+  - apply (ev_fold_add r fi (fun col => Mul (matrix_entry g ns i col) (c_amount (nthc ns col)))
+                       (fun j => mv j * av j)%Q (seq 0 (length ns)) (Num 0%Q) 0%Q (ev_num r fi 0%Q)).
+    intros j Hj. apply in_seq in Hj. apply ev_mul; [apply Hm | apply Ha]; lia.
+  - ring.
+Qed.
+
+(* ---- the diagonal ---------------------------------------------------------------------------------- *)
+(* a left fold of Add that skips some elements *)
+Lemma ev_fold_add_skip {A} r fi (skip : A -> bool) (f : A -> expr) (v : A -> Q) : forall l init a0,
+  ev r fi init a0 -> (forall x, In x l -> skip x = false -> ev r fi (f x) (v x)) ->
+  ev r fi (fold_left (fun acc x => if skip x then acc else Add acc (f x)) l init)
+     (a0 + qsum (map (fun x => if skip x then 0%Q else v x) l))%Q.
+Proof.
+  induction l as [|x tl IH]; intros init a0 H0 H; cbn [fold_left map qsum fold_right].
+  - eapply ev_compat; [exact H0 | ring].
+  - fold (qsum (map (fun x => if skip x then 0%Q else v x) tl)). destruct (skip x) eqn:E.
+    + eapply ev_compat; [apply (IH init a0 H0); intros y Hy; apply H; right; exact Hy | ring].
+    + eapply ev_compat.
+      * apply (IH (Add init (f x)) (a0 + v x)%Q).
+        -- apply ev_add; [exact H0 | apply H; [left; reflexivity | exact E]].
+        -- intros y Hy. apply H. right. exact Hy.
+      * ring.
+Qed.
+
+(* kv j : value of the rate of the flow from compartment number i to compartment number j *)
+Lemma diag_entry_lemma g ns i r fi (kv : nat -> Q) (ko : Q) :
+  (forall j, j < length ns -> j <> i -> ev r fi (get_flow g (Cmt (nthc ns i)) (Cmt (nthc ns j))) (kv j)) ->
+  ev r fi (get_flow g (Cmt (nthc ns i)) Out) ko ->
+  ev r fi (diag_entry g ns i)
+     (- (qsum (map (fun j => if Nat.eqb i j then 0%Q else kv j) (seq 0 (length ns))) + ko))%Q.
+Proof.
+  intros Hk Ho. unfold diag_entry. eapply ev_compat.
+  - apply ev_add; [|apply ev_neg; exact Ho].
+    apply (ev_fold_add_skip r fi (Nat.eqb i) (fun j => Neg (get_flow g (Cmt (nthc ns i)) (Cmt (nthc ns j))))
+                            (fun j => - kv j)%Q (seq 0 (length ns)) (Num 0%Q) 0%Q (ev_num r fi 0%Q)).
+    intros j Hj E. apply in_seq in Hj. apply Nat.eqb_neq in E. apply ev_neg, Hk; lia.
+  - rewrite (qsum_ext (fun j => if Nat.eqb i j then 0%Q else (- kv j)%Q) (fun j => (- (if Nat.eqb i j then 0%Q else kv j))%Q))
+      by (intros j _; destruct (Nat.eqb i j); ring).
+    rewrite qsum_opp. ring.
+Qed.
+
+Lemma nthc_In ns j : j < length ns -> In (nthc ns j) ns.
+Proof. intros H. unfold nthc. apply nth_In. exact H. Qed.
+
+Lemma qsum_map_nth (f : comp -> Q) ns : (qsum (map f ns) == qsum (map (fun i => f (nthc ns i)) (seq 0 (length ns))))%Q.
+Proof.
+  assert (H : forall s, (qsum (map f ns) == qsum (map (fun i => f (nthc ns (i - s))) (seq s (length ns))))%Q).
+  { induction ns as [|x tl IH]; intros s; cbn [length seq map qsum fold_right]; [reflexivity|].
+    fold (qsum (map f tl)) (qsum (map (fun i => f (nthc (x :: tl) (i - s))) (seq (S s) (length tl)))).
+    rewrite Nat.sub_diag. cbn [nthc nth]. rewrite (IH (S s)).
+    apply Qplus_comp; [reflexivity|]. apply qsum_ext. intros i Hi. apply in_seq in Hi.
+    unfold nthc. replace (i - s) with (S (i - S s)) by lia. reflexivity. }
+  rewrite (H 0). apply qsum_ext. intros i _. rewrite Nat.sub_0_r. reflexivity.
+Qed.
+
+(* ---- mass balance ---------------------------------------------------------------------------------- *)
+Definition total_rhs_on (g : graph) (ns : list comp) : expr :=
+  fold_left Add (map (eq_rhs_on g ns) (seq 0 (length ns))) (Num 0%Q).
+
+Lemma fold_left_Add_map {A} (f : A -> expr) l init :
+  fold_left Add (map f l) init = fold_left (fun acc x => Add acc (f x)) l init.
+Proof. revert init. induction l as [|x tl IH]; intros init; cbn [map fold_left]; [reflexivity | apply IH]. Qed.
+
+(* kv j i : value of the rate of the flow from compartment number j to compartment number i (j <> i) *)
+Lemma matrix_entry_value g ns r fi (kv : nat -> nat -> Q) (ko : nat -> Q) :
+  let n := length ns in
+  (forall i j, i < n -> j < n -> i <> j -> ev r fi (get_flow g (Cmt (nthc ns j)) (Cmt (nthc ns i))) (kv j i)) ->
+  (forall j, j < n -> ev r fi (get_flow g (Cmt (nthc ns j)) Out) (ko j)) ->
+  forall i j, i < n -> j < n ->
+    ev r fi (matrix_entry g ns i j)
+       (if Nat.eqb i j then (- (qsum (map (fun i' => if Nat.eqb j i' then 0%Q else kv j i') (seq 0 n)) + ko j))%Q else kv j i).
+Proof.
+  intros n Hk Ho i j Hi Hj. unfold matrix_entry. destruct (Nat.eqb i j) eqn:E.
+  - apply (diag_entry_lemma g ns j r fi (fun i' => kv j i') (ko j)).
+    + intros i' Hi' Hne. apply Hk; try assumption.
+    + apply Ho, Hj.
+  - apply Nat.eqb_neq in E. apply Hk; assumption.
+Qed.
+
+Lemma mass_balance_general g ns r fi (kv : nat -> nat -> Q) (ko av uv : nat -> Q) :
+  let n := length ns in
+  (forall i j, i < n -> j < n -> i <> j -> ev r fi (get_flow g (Cmt (nthc ns j)) (Cmt (nthc ns i))) (kv j i)) ->
+  (forall j, j < n -> ev r fi (get_flow g (Cmt (nthc ns j)) Out) (ko j)) ->
+  (forall j, j < n -> ev r fi (c_amount (nthc ns j)) (av j)) ->
+  (forall j, j < n -> ev r fi (c_input (nthc ns j)) (uv j)) ->
+  ev r fi (total_rhs_on g ns)
+     (qsum (map uv (seq 0 n)) - qsum (map (fun j => ko j * av j) (seq 0 n)))%Q.
+Proof.
+  intros n Hk Ho Ha Hu.
+  set (m := fun i j => if Nat.eqb i j then (- (qsum (map (fun i' => if Nat.eqb j i' then 0%Q else kv j i') (seq 0 n)) + ko j))%Q
+                       else kv j i).
+  pose proof (matrix_entry_value g ns r fi kv ko Hk Ho) as Hm. fold n in Hm.
+  unfold total_rhs_on. rewrite fold_left_Add_map. fold n. eapply ev_compat.
+  - apply (ev_fold_add r fi (eq_rhs_on g ns) (fun i => (qsum (map (fun j => (m i j * av j)%Q) (seq 0%nat n)) + uv i)%Q)
+                       (seq 0 n) (Num 0%Q) 0%Q (ev_num r fi 0%Q)).
+    intros i Hi. apply in_seq in Hi.
+    apply (eqs_entrywise_lemma g ns r fi i (m i) av (uv i)); fold n; intros; try apply Hm; try apply Ha; try apply Hu; lia.
+  - rewrite qsum_plus, qsum_swap.
+    rewrite (qsum_ext (fun j => qsum (map (fun i => (m i j * av j)%Q) (seq 0 n))) (fun j => (- (ko j * av j))%Q)).
+    + rewrite qsum_opp. ring.
+    + intros j Hj. apply in_seq in Hj. rewrite qsum_scale. unfold m.
+      rewrite (qsum_replace_at (fun i => kv j i) _ j n 0) by lia.
+      rewrite (qsum_ext (fun i' => if Nat.eqb j i' then 0%Q else kv j i') (fun i' => if Nat.eqb i' j then 0%Q else kv j i'))
+        by (intros i' _; rewrite (Nat.eqb_sym j i'); reflexivity).
+      rewrite (qsum_replace_at (fun i => kv j i) 0%Q j n 0) by lia. ring.
+Qed.
+
+Lemma adj_lookup_In a v r : adj_lookup a v = Some r -> In (v, r) a.
+Proof.
+  induction a as [|[w x] tl IH]; cbn [adj_lookup]; [discriminate|].
+  destruct (node_eqb w v) eqn:E.
+  - apply node_eqb_spec in E. intros H. injection H as <-. subst. left. reflexivity.
+  - intros H. right. apply IH, H.
+Qed.
+
+(* ---- the closed form: no valuations in the statement ----------------------------------------------- *)
+Definition total_rhs (g : graph) : expr := fold_left Add (eqs_rhs g) (Num 0%Q).
+Definition total_input (g : graph) : expr := fold_left Add (zero_order_inputs g) (Num 0%Q).
+Definition total_output (g : graph) : expr :=
+  fold_left Add (map (fun c => Mul (get_flow g (Cmt c) Out) (c_amount c)) (order g)) (Num 0%Q).
+
+Definition rates_defined (g : graph) (r : env) (fi : finterp) : Prop :=
+  forall u a v e, In (u, a) g -> In (v, e) a -> eval r fi e <> None.
+Definition comps_defined (g : graph) (r : env) (fi : finterp) : Prop :=
+  forall c, In c (order g) -> eval r fi (c_amount c) <> None /\ eval r fi (c_input c) <> None.
+
+Definition oval (o : option Q) : Q := match o with Some q => q | None => 0%Q end.
+
+Lemma ev_oval r fi e : eval r fi e <> None -> ev r fi e (oval (eval r fi e)).
+Proof. intros H. destruct (eval r fi e) as [q|] eqn:E; [|congruence]. apply ev_of_eval. exact E. Qed.
+
+Lemma get_flow_defined g r fi u v : rates_defined g r fi -> eval r fi (get_flow g u v) <> None.
+Proof.
+  intros H. unfold get_flow. destruct (adj_lookup (adj_of g u) v) as [e|] eqn:E; [|cbn; discriminate].
+  apply adj_lookup_In in E. destruct (adj_of_cases g u) as [Hin|[E0 _]].
+  - eapply H; eassumption.
+  - rewrite E0 in E. destruct E.
+Qed.
+
+Lemma total_rhs_unfold g : total_rhs g = total_rhs_on g (order g).
+Proof. reflexivity. Qed.
+
+Theorem mass_balance_closed_lemma g r fi :
+  rates_defined g r fi -> comps_defined g r fi ->
+  exists t i o, eval r fi (total_rhs g) = Some t /\ eval r fi (total_input g) = Some i /\
+                eval r fi (total_output g) = Some o /\ (t == i - o)%Q.
+Proof.
+  intros Hr Hc. set (ns := order g). set (n := length ns).
+  set (kv := fun j i => oval (eval r fi (get_flow g (Cmt (nthc ns j)) (Cmt (nthc ns i))))).
+  set (ko := fun j => oval (eval r fi (get_flow g (Cmt (nthc ns j)) Out))).
+  set (av := fun j => oval (eval r fi (c_amount (nthc ns j)))).
+  set (uv := fun j => oval (eval r fi (c_input (nthc ns j)))).
+  assert (Ha : forall j, j < n -> ev r fi (c_amount (nthc ns j)) (av j)).
+  { intros j Hj. apply ev_oval. apply Hc, nthc_In, Hj. }
+  assert (Hu : forall j, j < n -> ev r fi (c_input (nthc ns j)) (uv j)).
+  { intros j Hj. apply ev_oval. apply Hc, nthc_In, Hj. }
+  assert (Ho : forall j, j < n -> ev r fi (get_flow g (Cmt (nthc ns j)) Out) (ko j)).
+  { intros j _. apply ev_oval, get_flow_defined, Hr. }
+  assert (Hk : forall i j, i < n -> j < n -> i <> j -> ev r fi (get_flow g (Cmt (nthc ns j)) (Cmt (nthc ns i))) (kv j i)).
+  { intros i j _ _ _. apply ev_oval, get_flow_defined, Hr. }
+  destruct (mass_balance_general g ns r fi kv ko av uv Hk Ho Ha Hu) as [t [Et Ht]].
+  assert (Hi : ev r fi (total_input g) (0 + qsum (map (fun c => oval (eval r fi (c_input c))) ns))%Q).
+  { unfold total_input, zero_order_inputs. rewrite fold_left_Add_map. apply ev_fold_add; [apply ev_num|].
+    intros c Hin. apply ev_oval, Hc, Hin. }
+  assert (Hout : ev r fi (total_output g)
+                    (0 + qsum (map (fun c => oval (eval r fi (get_flow g (Cmt c) Out)) * oval (eval r fi (c_amount c))) ns))%Q).
+  { unfold total_output. rewrite fold_left_Add_map. apply ev_fold_add; [apply ev_num|].
+    intros c Hin. apply ev_mul; apply ev_oval; [apply get_flow_defined, Hr | apply Hc, Hin]. }
+  destruct Hi as [i [Ei Hi]]. destruct Hout as [o [Eo Hout]].
+  exists t, i, o. repeat split; try assumption.
+  rewrite Ht, Hi, Hout. fold n.
+  rewrite (qsum_map_nth (fun c => oval (eval r fi (c_input c))) ns).
+  rewrite (qsum_map_nth (fun c => (oval (eval r fi (get_flow g (Cmt c) Out)) * oval (eval r fi (c_amount c)))%Q) ns).
+  fold n. unfold uv, ko, av. ring.
+Qed.
+
+(* ================================================================================================ *)
+(* 6. from_dict (to_dict s) = s                                                                     *)
+(* ================================================================================================ *)
+Lemma dose_dict_roundtrip d : dose_from_dict (dose_to_dict d) = d.
+Proof. destruct d; reflexivity. Qed.
+
+Lemma comp_dict_roundtrip c :
+  comp_from_dict (c_name c) (c_amount c)
+                 (match c_doses c with [] => None | ds => Some (map dose_to_dict ds) end)
+                 (c_input c) (c_lag c) (c_bio c) = c.
+Proof.
+  destruct c as [n a ds i l b]. unfold comp_from_dict. cbn [c_name c_amount c_doses c_input c_lag c_bio].
+  f_equal. destruct ds as [|d tl]; [reflexivity|]. rewrite map_map.
+  rewrite (map_ext _ (fun x => x)) by apply dose_dict_roundtrip. apply map_id.
+Qed.
+
+Definition empties (ns : list node) : graph := map (fun n => (n, @nil (node * expr))) ns.
+
+Lemma nodes_empties ns : nodes (empties ns) = ns.
+Proof. unfold nodes, empties. rewrite map_map. cbn [fst]. apply map_id. Qed.
+
+Lemma nodes_app a b : nodes (a ++ b) = nodes a ++ nodes b.
+Proof. unfold nodes. apply map_app. Qed.
+
+Lemma from_dict_nodes_cmts : forall ns G cl,
+  (forall n, In n ns -> n <> Out) -> NoDup (nodes G ++ ns) ->
+  fold_left from_dict_node_step (map node_to_dict ns) (G, cl) = (G ++ empties ns, cl ++ ns).
+Proof.
+  induction ns as [|n tl IH]; intros G cl Hc Hn; cbn [map fold_left].
+  - cbn [empties map]. rewrite !app_nil_r. reflexivity.
+  - destruct n as [|c]; [exfalso; apply (Hc Out); [left|]; reflexivity|].
+    cbn [node_to_dict from_dict_node_step]. rewrite comp_dict_roundtrip.
+    assert (Hnew : has_node G (Cmt c) = false).
+    { apply has_node_false. apply NoDup_remove_2 in Hn. intros Hin. apply Hn, in_or_app. left. exact Hin. }
+    unfold add_node. rewrite Hnew. rewrite IH.
+    + cbn [empties map]. rewrite <- !app_assoc. reflexivity.
+    + intros n Hin. apply Hc. right. exact Hin.
+    + rewrite nodes_app. cbn [nodes map fst]. rewrite <- app_assoc. exact Hn.
+Qed.
+
+Lemma from_dict_nodes_wf g : WF g -> from_dict_nodes (map node_to_dict (nodes g)) = (empties (nodes g), nodes g).
+Proof.
+  intros [[tl E] [Hn _]]. subst g. cbn [nodes map fst] in *. unfold from_dict_nodes. cbn [map node_to_dict fold_left from_dict_node_step].
+  fold (nodes tl) in *. inversion Hn as [|? ? Ho Ht]; subst.
+  rewrite from_dict_nodes_cmts.
+  - reflexivity.
+  - intros n Hin E. subst. contradiction.
+  - cbn [empty_builder nodes map fst app]. exact Hn.
+Qed.
+
+Lemma nth_index l n : In n l -> nth_error l (index_of l n) = Some n.
+Proof.
+  induction l as [|x tl IH]; cbn [In index_of]; [tauto|]. intros H.
+  destruct (node_eqb x n) eqn:E.
+  - apply node_eqb_spec in E. subst. reflexivity.
+  - apply node_eqb_false in E. destruct H as [H|H]; [contradiction|]. cbn [nth_error]. apply IH, H.
+Qed.
+
+Definition add_edges (G : graph) (es : list (node * node * expr)) : graph :=
+  fold_left (fun acc e => add_edge acc (fst (fst e)) (snd (fst e)) (snd e)) es G.
+
+Definition edges_of (p : node * adj) : list (node * node * expr) := map (fun e => (fst p, fst e, snd e)) (snd p).
+
+Lemma from_dict_edges cl : forall es G,
+  (forall e, In e es -> In (fst (fst e)) cl /\ In (snd (fst e)) cl) ->
+  fold_left (from_dict_step cl) (map (fun e => (index_of cl (fst (fst e)), index_of cl (snd (fst e)), snd e)) es) (Some G)
+  = Some (add_edges G es).
+Proof.
+  induction es as [|[[u v] r] tl IH]; intros G H; cbn [map fold_left add_edges]; [reflexivity|].
+  cbn [fst snd from_dict_step]. destruct (H (u, v, r) (or_introl eq_refl)) as [Hu Hv]. cbn [fst snd] in Hu, Hv.
+  rewrite (nth_index _ _ Hu), (nth_index _ _ Hv). apply IH. intros e He. apply H. right. exact He.
+Qed.
+
+Lemma dict_rates_edges g :
+  dict_rates g = map (fun e => (index_of (nodes g) (fst (fst e)), index_of (nodes g) (snd (fst e)), snd e))
+                     (flat_map edges_of g).
+Proof.
+  unfold dict_rates. generalize (nodes g) as ns. intros ns.
+  induction g as [|p tl IH]; cbn [flat_map]; [reflexivity|].
+  rewrite map_app, IH. f_equal. unfold edges_of. rewrite map_map. reflexivity.
+Qed.
+
+Lemma update_adj_mid pre u a post f :
+  ~ In u (nodes pre) -> ~ In u (nodes post) ->
+  update_adj (pre ++ (u, a) :: post) u f = pre ++ (u, f a) :: post.
+Proof.
+  intros H1 H2. unfold update_adj. rewrite map_app. cbn [map fst snd]. rewrite node_eqb_refl. f_equal; [|f_equal].
+  - rewrite <- (map_id pre) at 2. apply map_ext_in. intros [w x] Hin. cbn [fst].
+    destruct (node_eqb w u) eqn:E; [|reflexivity]. apply node_eqb_spec in E. subst.
+    exfalso. apply H1. unfold nodes. apply in_map_iff. exists (u, x). split; [reflexivity | exact Hin].
+  - rewrite <- (map_id post) at 2. apply map_ext_in. intros [w x] Hin. cbn [fst].
+    destruct (node_eqb w u) eqn:E; [|reflexivity]. apply node_eqb_spec in E. subst.
+    exfalso. apply H2. unfold nodes. apply in_map_iff. exists (u, x). split; [reflexivity | exact Hin].
+Qed.
+
+Lemma adj_set_append a v r : ~ In v (map fst a) -> adj_set a v r = a ++ [(v, r)].
+Proof.
+  induction a as [|[w x] tl IH]; cbn [adj_set map fst In app]; [reflexivity|]. intros H.
+  destruct (node_eqb w v) eqn:E; [apply node_eqb_spec in E; subst; tauto|].
+  rewrite IH by tauto. reflexivity.
+Qed.
+
+Lemma add_edge_existing G u v r :
+  In u (nodes G) -> In v (nodes G) -> add_edge G u v r = update_adj G u (fun a => adj_set a v r).
+Proof.
+  intros Hu Hv. unfold add_edge, add_node.
+  rewrite (proj2 (has_node_In G u) Hu), (proj2 (has_node_In G v) Hv). reflexivity.
+Qed.
+
+Lemma add_edges_cons G u v r es : add_edges G ((u, v, r) :: es) = add_edges (add_edge G u v r) es.
+Proof. reflexivity. Qed.
+Lemma edges_of_cons u v r tl : edges_of (u, (v, r) :: tl) = (u, v, r) :: edges_of (u, tl).
+Proof. reflexivity. Qed.
+
+Lemma add_edges_one_node pre u post : forall a2 a1,
+  ~ In u (nodes pre) -> ~ In u (nodes post) -> NoDup (map fst (a1 ++ a2)) ->
+  (forall v r, In (v, r) a2 -> In v (nodes pre ++ u :: nodes post)) ->
+  add_edges (pre ++ (u, a1) :: post) (edges_of (u, a2)) = pre ++ (u, a1 ++ a2) :: post.
+Proof.
+  induction a2 as [|[v r] tl IH]; intros a1 H1 H2 Hn Hv.
+  - rewrite app_nil_r. reflexivity.
+  - rewrite edges_of_cons, add_edges_cons. rewrite add_edge_existing.
+    + rewrite update_adj_mid by assumption. cbn beta. rewrite adj_set_append.
+      * transitivity (pre ++ (u, (a1 ++ [(v, r)]) ++ tl) :: post); [|rewrite <- app_assoc; reflexivity].
+        apply IH; [exact H1 | exact H2 | rewrite <- app_assoc; exact Hn|].
+        intros v' r' Hin. apply (Hv v' r'). right. exact Hin.
+      * rewrite map_app in Hn. cbn [map fst] in Hn. apply NoDup_remove_2 in Hn.
+        intros Hin. apply Hn, in_or_app. left. exact Hin.
+    + rewrite nodes_app. cbn [nodes map fst]. apply in_or_app. right. left. reflexivity.
+    + rewrite nodes_app. cbn [nodes map fst]. apply (Hv v r). left. reflexivity.
+Qed.
+
+Lemma add_edges_app G e1 e2 : add_edges G (e1 ++ e2) = add_edges (add_edges G e1) e2.
+Proof. unfold add_edges. apply fold_left_app. Qed.
+
+Lemma add_edges_all : forall todo done,
+  NoDup (nodes (done ++ todo)) ->
+  (forall u a, In (u, a) todo -> NoDup (map fst a) /\ forall v r, In (v, r) a -> In v (nodes (done ++ todo))) ->
+  add_edges (done ++ empties (nodes todo)) (flat_map edges_of todo) = done ++ todo.
+Proof.
+  induction todo as [|[u a] tl IH]; intros done Hn Hw.
+  - reflexivity.
+  - change (flat_map edges_of ((u, a) :: tl)) with (edges_of (u, a) ++ flat_map edges_of tl).
+    change (empties (nodes ((u, a) :: tl))) with ((u, @nil (node * expr)) :: empties (nodes tl)).
+    rewrite add_edges_app.
+    assert (Hn' : NoDup (nodes done ++ u :: nodes tl)).
+    { rewrite nodes_app in Hn. exact Hn. }
+    assert (H1 : ~ In u (nodes done)).
+    { apply NoDup_remove_2 in Hn'. intros Hin. apply Hn', in_or_app. left. exact Hin. }
+    assert (H2 : ~ In u (nodes tl)).
+    { apply NoDup_remove_2 in Hn'. intros Hin. apply Hn', in_or_app. right. exact Hin. }
+    destruct (Hw u a (or_introl eq_refl)) as [Ha Hv].
+    transitivity (add_edges (done ++ (u, [] ++ a) :: empties (nodes tl)) (flat_map edges_of tl)).
+    { f_equal. apply add_edges_one_node.
+      - exact H1.
+      - rewrite nodes_empties. exact H2.
+      - exact Ha.
+      - intros v r Hvr. rewrite nodes_empties. specialize (Hv v r Hvr). rewrite nodes_app in Hv. exact Hv. }
+    cbn [app].
+    transitivity ((done ++ [(u, a)]) ++ tl); [|rewrite <- app_assoc; reflexivity].
+    transitivity (add_edges ((done ++ [(u, a)]) ++ empties (nodes tl)) (flat_map edges_of tl));
+      [rewrite <- app_assoc; reflexivity|].
+    apply IH.
+    + rewrite <- app_assoc. exact Hn.
+    + intros u' a' Hin. destruct (Hw u' a' (or_intror Hin)) as [Ha' Hv']. split; [exact Ha'|].
+      intros v r Hvr. rewrite <- app_assoc. eapply Hv'. exact Hvr.
+Qed.
+
+Theorem dict_roundtrip_lemma g t : WF g -> from_dict (to_dict (g, t)) = Some (g, t).
+Proof.
+  intros Hwf. unfold from_dict, to_dict. cbn [dd_comps dd_rates dd_t].
+  rewrite (from_dict_nodes_wf g Hwf), dict_rates_edges, from_dict_edges.
+  - destruct Hwf as [_ [Hn Hw]]. pose proof (add_edges_all g [] Hn Hw) as H. cbn [app] in H. rewrite H. reflexivity.
+  - destruct Hwf as [_ [_ Hw]]. intros [[u v] r] Hin. cbn [fst snd]. apply in_flat_map in Hin.
+    destruct Hin as [[u' a] [Hp He]]. unfold edges_of in He. cbn [fst snd] in He. apply in_map_iff in He.
+    destruct He as [[v' r'] [E Hvr]]. cbn [fst snd] in E. injection E as -> -> ->.
+    split.
+    + unfold nodes. apply in_map_iff. exists (u, a). split; [reflexivity | exact Hp].
+    + destruct (Hw _ _ Hp) as [_ Hv]. eapply Hv. exact Hvr.
+Qed.
+
+(* ================================================================================================ *)
+(* 7. Every builder operation keeps the graph well formed                                           *)
+(* ================================================================================================ *)
+Lemma WF_empty : WF empty_builder.
+Proof.
+  split; [exists []; reflexivity|]. split; [cbn; constructor; [intros []|constructor]|].
+  intros u a [H|[]]. injection H as <- <-. split; [constructor | intros v r []].
+Qed.
+
+Lemma WF_out_adj g a : WF g -> In (Out, a) g -> a = [].
+Proof.
+  intros [[tl E] [Hn _]] Hin. subst g. destruct Hin as [H|H]; [congruence|].
+  cbn [nodes map fst] in Hn. inversion Hn as [|? ? Ho _]; subst. exfalso. apply Ho.
+  apply in_map_iff. exists (Out, a). split; [reflexivity | exact H].
+Qed.
+
+Lemma add_node_WF g n : WF g -> WF (add_node g n).
+Proof.
+  intros Hwf. unfold add_node. destruct (has_node g n) eqn:E; [exact Hwf|].
+  apply has_node_false in E. destruct Hwf as [[tl Eg] [Hn Hw]]. split; [|split].
+  - exists (tl ++ [(n, [])]). subst g. reflexivity.
+  - rewrite nodes_app. cbn [nodes map fst]. apply NoDup_app_intro; [exact Hn | constructor; [intros [] | constructor]|].
+    intros x Hx [Hx'|[]]. subst. contradiction.
+  - intros u a Hin. apply in_app_or in Hin. destruct Hin as [Hin|[Hin|[]]].
+    + destruct (Hw _ _ Hin) as [H1 H2]. split; [exact H1|]. intros v r Hv. rewrite nodes_app. apply in_or_app. left. eapply H2, Hv.
+    + injection Hin as <- <-. split; [constructor | intros v r []].
+Qed.
+
+Lemma nodes_update_adj g u f : nodes (update_adj g u f) = nodes g.
+Proof.
+  unfold nodes, update_adj. rewrite map_map. apply map_ext. intros [w a]. cbn [fst snd]. destruct (node_eqb w u); reflexivity.
+Qed.
+
+Lemma update_adj_WF g u f :
+  WF g -> u <> Out ->
+  (forall a, In (u, a) g -> NoDup (map fst (f a)) /\ forall v r, In (v, r) (f a) -> In v (nodes g)) ->
+  WF (update_adj g u f).
+Proof.
+  intros [[tl Eg] [Hn Hw]] Hu Hf. split; [|split].
+  - subst g. unfold update_adj. cbn [map fst snd]. destruct (node_eqb Out u) eqn:E; [apply node_eqb_spec in E; congruence|].
+    eexists. reflexivity.
+  - rewrite nodes_update_adj. exact Hn.
+  - intros w a Hin. rewrite nodes_update_adj. unfold update_adj in Hin. apply in_map_iff in Hin.
+    destruct Hin as [[w' a'] [E Hin]]. cbn [fst snd] in E. destruct (node_eqb w' u) eqn:E'.
+    + apply node_eqb_spec in E'. subst w'. injection E as <- <-. apply Hf. exact Hin.
+    + injection E as <- <-. apply (Hw _ _ Hin).
+Qed.
+
+Lemma adj_set_keys a v r :
+  map fst (adj_set a v r) = if existsb (fun p => node_eqb (fst p) v) a then map fst a else map fst a ++ [v].
+Proof.
+  induction a as [|[w x] tl IH]; cbn [adj_set existsb map fst app]; [reflexivity|].
+  destruct (node_eqb w v) eqn:E; cbn [orb map fst]; [reflexivity|].
+  rewrite IH. destruct (existsb (fun p => node_eqb (fst p) v) tl); reflexivity.
+Qed.
+
+Lemma adj_set_In a v r v' r' : In (v', r') (adj_set a v r) -> In v' (map fst a) \/ v' = v.
+Proof.
+  induction a as [|[w x] tl IH]; cbn [adj_set map fst In].
+  - intros [H|[]]. injection H as <- <-. right. reflexivity.
+  - destruct (node_eqb w v) eqn:E.
+    + intros [H|H]; [injection H as <- <-; left; left; reflexivity | left; right; apply in_map_iff; exists (v', r'); split; [reflexivity | exact H]].
+    + intros [H|H]; [injection H as <- <-; left; left; reflexivity|]. apply IH in H. tauto.
+Qed.
+
+Lemma add_edge_WF g u v r : WF g -> u <> Out -> WF (add_edge g u v r).
+Proof.
+  intros Hwf Hu. unfold add_edge. set (g2 := add_node (add_node g u) v).
+  assert (Hwf2 : WF g2) by (apply add_node_WF, add_node_WF, Hwf).
+  assert (Hv : In v (nodes g2)).
+  { unfold g2, add_node at 1. destruct (has_node (add_node g u) v) eqn:E; [apply has_node_In, E|].
+    rewrite nodes_app. apply in_or_app. right. left. reflexivity. }
+  apply update_adj_WF; [exact Hwf2 | exact Hu|].
+  intros a Hin. destruct Hwf2 as [_ [_ Hw]]. destruct (Hw _ _ Hin) as [H1 H2]. split.
+  - rewrite adj_set_keys. destruct (existsb (fun p => node_eqb (fst p) v) a) eqn:E; [exact H1|].
+    apply NoDup_app_intro; [exact H1 | constructor; [intros [] | constructor]|].
+    intros x Hx [Hx'|[]]. subst x. apply in_map_iff in Hx. destruct Hx as [p [Ep Hp]].
+    assert (existsb (fun p => node_eqb (fst p) v) a = true).
+    { apply existsb_exists. exists p. split; [exact Hp | rewrite Ep; apply node_eqb_refl]. }
+    congruence.
+  - intros v' r' Hin'. apply adj_set_In in Hin'. destruct Hin' as [Hin'|Hin']; [|subst; exact Hv].
+    apply in_map_iff in Hin'. destruct Hin' as [[v2 r2] [E2 Hp]]. cbn [fst] in E2. subst v2. eapply H2, Hp.
+Qed.
+
+Lemma adj_remove_In a n v r : In (v, r) (adj_remove a n) <-> In (v, r) a /\ v <> n.
+Proof.
+  unfold adj_remove. rewrite filter_In. cbn [fst]. rewrite negb_true_iff, node_eqb_false. tauto.
+Qed.
+
+Lemma map_fst_filter_NoDup {B} (a : list (node * B)) (f : node * B -> bool) : NoDup (map fst a) -> NoDup (map fst (filter f a)).
+Proof.
+  induction a as [|[w x] tl IH]; cbn [map fst filter]; intros H; [constructor|].
+  inversion H as [|? ? Hn Ht]; subst. destruct (f (w, x)); [|apply IH, Ht].
+  cbn [map fst]. constructor; [|apply IH, Ht]. intros Hin. apply Hn. apply in_map_iff in Hin.
+  destruct Hin as [p [E Hp]]. apply filter_In in Hp. apply in_map_iff. exists p. split; [exact E | apply Hp].
+Qed.
+
+Lemma remove_node_WF g n : WF g -> n <> Out -> WF (remove_node g n).
+Proof.
+  intros [[tl Eg] [Hn Hw]] Hne. unfold remove_node.
+  assert (Hnodes : nodes (map (fun p => (fst p, adj_remove (snd p) n)) (filter (fun p => negb (node_eqb (fst p) n)) g))
+                   = map fst (filter (fun p => negb (node_eqb (fst p) n)) g)).
+  { unfold nodes. rewrite map_map. reflexivity. }
+  split; [|split].
+  - subst g. cbn [filter fst]. destruct (node_eqb Out n) eqn:E; [apply node_eqb_spec in E; congruence|].
+    cbn [negb map fst snd adj_remove filter]. eexists. reflexivity.
+  - rewrite Hnodes. apply map_fst_filter_NoDup. exact Hn.
+  - intros u a Hin. rewrite Hnodes. apply in_map_iff in Hin. destruct Hin as [[u' a'] [E Hin]]. cbn [fst snd] in E.
+    injection E as <- <-. apply filter_In in Hin. destruct Hin as [Hin _]. destruct (Hw _ _ Hin) as [H1 H2]. split.
+    + apply map_fst_filter_NoDup. exact H1.
+    + intros v r Hv. apply adj_remove_In in Hv. destruct Hv as [Hv Hvn]. specialize (H2 _ _ Hv).
+      unfold nodes in H2. apply in_map_iff in H2. destruct H2 as [p [Ep Hp]]. apply in_map_iff. exists p. split; [exact Ep|].
+      apply filter_In. split; [exact Hp|]. rewrite Ep. apply negb_true_iff, node_eqb_false. exact Hvn.
+Qed.
+
+Lemma remove_edge_WF g u v : WF g -> u <> Out -> WF (remove_edge g u v).
+Proof.
+  intros Hwf Hu. unfold remove_edge. apply update_adj_WF; [exact Hwf | exact Hu|].
+  intros a Hin. destruct Hwf as [_ [_ Hw]]. destruct (Hw _ _ Hin) as [H1 H2]. split.
+  - apply map_fst_filter_NoDup. exact H1.
+  - intros v' r' Hv. apply adj_remove_In in Hv. eapply H2. apply Hv.
+Qed.
+
+Lemma fold_add_edge_WF (es : list (node * node * expr)) : forall G,
+  WF G -> (forall u v r, In (u, v, r) es -> u <> Out) ->
+  WF (fold_left (fun acc e => let '(u, v, r) := e in add_edge acc u v r) es G).
+Proof.
+  induction es as [|[[u v] r] tl IH]; intros G Hwf H; cbn [fold_left]; [exact Hwf|].
+  apply IH.
+  - apply add_edge_WF; [exact Hwf | apply (H u v r); left; reflexivity].
+  - intros u' v' r' Hin. apply (H u' v' r'). right. exact Hin.
+Qed.
+
+Lemma in_edges_source g n w r : WF g -> In (w, r) (in_edges g n) -> w <> Out.
+Proof.
+  intros Hwf Hin. unfold in_edges in Hin. apply in_flat_map in Hin. destruct Hin as [[w' a] [Hp Hin]]. cbn [fst snd] in Hin.
+  destruct (adj_lookup a n) as [r'|] eqn:E; [|destruct Hin]. destruct Hin as [Hin|[]]. injection Hin as <- <-.
+  intros Eo. subst w'. rewrite (WF_out_adj g a Hwf Hp) in E. discriminate.
+Qed.
+
+Lemma relabel1_WF g old new : WF g -> old <> Out -> new <> Out -> WF (relabel1 g old new).
+Proof.
+  intros Hwf Ho Hn. unfold relabel1. set (g1 := add_node g new).
+  assert (Hwf1 : WF g1) by apply add_node_WF, Hwf.
+  apply fold_add_edge_WF; [apply remove_node_WF; assumption|].
+  intros u v r Hin. apply in_app_or in Hin. destruct Hin as [Hin|Hin]; apply in_map_iff in Hin; destruct Hin as [[w x] [E Hp]]; cbn [fst snd] in E.
+  - injection E as <- _ _. exact Hn.
+  - injection E as <- _ _. destruct (node_eqb w old); [exact Hn|]. eapply in_edges_source; eassumption.
+Qed.
+
+Lemma map_lookup_In m n v : map_lookup m n = Some v -> In (n, v) m.
+Proof.
+  induction m as [|[k x] tl IH]; cbn [map_lookup]; [discriminate|]. destruct (node_eqb k n) eqn:E.
+  - apply node_eqb_spec in E. subst. intros H. injection H as <-. left. reflexivity.
+  - intros H. right. apply IH, H.
+Qed.
+
+Lemma relabel_WF g m : WF g -> (forall k v, In (k, v) m -> k <> Out /\ v <> Out) -> WF (relabel g m).
+Proof.
+  intros Hwf Hm. unfold relabel. generalize (nodes g) as l. intros l. revert g Hwf.
+  induction l as [|old tl IH]; intros g Hwf; cbn [fold_left]; [exact Hwf|].
+  apply IH. destruct (map_lookup m old) as [new|] eqn:E; [|exact Hwf].
+  destruct (node_eqb new old); [exact Hwf|]. destruct (has_node g old); [|exact Hwf].
+  apply map_lookup_In in E. destruct (Hm _ _ E) as [H1 H2]. apply relabel1_WF; assumption.
+Qed.
+
+Lemma relabel_single_WF g c c' : WF g -> WF (relabel g [(Cmt c, Cmt c')]).
+Proof.
+  intros Hwf. apply relabel_WF; [exact Hwf|]. intros k v [H|[]]. injection H as <- <-. split; discriminate.
+Qed.
+
+Theorem apply_op_WF g o : WF g -> WF (fst (apply_op g o)).
+Proof.
+  intros Hwf. destruct o; cbn [apply_op].
+  - apply add_node_WF, Hwf.
+  - destruct (find_compartment g nm); cbn [fst]; [apply remove_node_WF; [exact Hwf | discriminate] | exact Hwf].
+  - destruct (find_compartment g s); [|exact Hwf]. destruct (resolve g d); cbn [fst]; [|exact Hwf].
+    apply add_edge_WF; [exact Hwf | discriminate].
+  - destruct (find_compartment g s); [|exact Hwf]. destruct (resolve g d); cbn [fst]; [|exact Hwf].
+    destruct (has_edge g (Cmt c) n); cbn [fst]; [apply remove_edge_WF; [exact Hwf | discriminate] | exact Hwf].
+  - destruct (find_compartment g s) as [src|]; [|exact Hwf]. destruct (find_compartment g d) as [dst|]; [|exact Hwf].
+    destruct (doses_prop src) as [|d0 dl]; [exact Hwf|].
+    destruct (match admid_true admid with
+              | Some a => (filter (fun x => negb (Z.eqb (dose_admid x) a)) (d0 :: dl), filter (fun x => Z.eqb (dose_admid x) a) (d0 :: dl))
+              | None => ([], d0 :: dl) end) as [new_sd moved].
+    cbn [fst]. apply relabel_WF; [exact Hwf|]. intros k v Hin.
+    destruct (comp_eqb src dst); [destruct Hin as [H|[]] | destruct Hin as [H|[H|[]]]]; injection H as <- <-; split; discriminate.
+  - destruct (find_compartment g nm); cbn [fst]; [apply relabel_single_WF, Hwf | exact Hwf].
+  - destruct (find_compartment g nm); [|exact Hwf]. destruct a; cbn [fst]; try exact Hwf; apply relabel_single_WF, Hwf.
+  - destruct (find_compartment g nm); cbn [fst]; [apply relabel_single_WF, Hwf | exact Hwf].
+  - destruct (find_compartment g nm); cbn [fst]; [apply relabel_single_WF, Hwf | exact Hwf].
+  - destruct (find_compartment g nm); cbn [fst]; [apply relabel_single_WF, Hwf | exact Hwf].
+  - destruct (find_compartment g nm); cbn [fst]; [apply relabel_single_WF, Hwf | exact Hwf].
+  - exact Hwf.
+  - apply add_edge_WF; [exact Hwf | discriminate].
+Qed.
+
+Lemma apply_ops_WF ops : forall g, WF g -> WF (fst (apply_ops g ops)).
+Proof.
+  induction ops as [|o tl IH]; intros g Hwf; cbn [apply_ops fst]; [exact Hwf|].
+  pose proof (apply_op_WF g o Hwf) as H1. destruct (apply_op g o) as [g1 e]. cbn [fst] in H1.
+  specialize (IH g1 H1). destruct (apply_ops g1 tl) as [g2 es]. exact IH.
+Qed.
+
+Theorem build_WF ops : WF (build ops).
+Proof. apply apply_ops_WF, WF_empty. Qed.
+
+(* ================================================================================================ *)
+(* 8. == is reflexive where it is defined; executable definedness checks                           *)
+(* ================================================================================================ *)
+Lemma adj_of_In g u a : NoDup (nodes g) -> In (u, a) g -> adj_of g u = a.
+Proof.
+  induction g as [|[w x] tl IH]; cbn [adj_of nodes map fst In]; intros Hn Hin; [destruct Hin|].
+  inversion Hn as [|? ? Hw Ht]; subst. destruct Hin as [Hin|Hin].
+  - injection Hin as -> ->. rewrite node_eqb_refl. reflexivity.
+  - destruct (node_eqb w u) eqn:E; [|apply IH; assumption].
+    apply node_eqb_spec in E. subst. exfalso. apply Hw. apply in_map_iff. exists (u, a). split; [reflexivity | exact Hin].
+Qed.
+
+Lemma adj_lookup_NoDup a v r : NoDup (map fst a) -> In (v, r) a -> adj_lookup a v = Some r.
+Proof.
+  induction a as [|[w x] tl IH]; cbn [adj_lookup map fst In]; intros Hn Hin; [destruct Hin|].
+  inversion Hn as [|? ? Hw Ht]; subst. destruct Hin as [Hin|Hin].
+  - injection Hin as -> ->. rewrite node_eqb_refl. reflexivity.
+  - destruct (node_eqb w v) eqn:E; [|apply IH; assumption].
+    apply node_eqb_spec in E. subst. exfalso. apply Hw. apply in_map_iff. exists (v, r). split; [reflexivity | exact Hin].
+Qed.
+
+Lemma dod_eqb_refl g : WF g -> dod_eqb g g = true.
+Proof.
+  intros [_ [Hn Hw]]. unfold dod_eqb. rewrite Nat.eqb_refl. cbn [andb]. apply forallb_forall. intros [u a] Hin. cbn [fst snd].
+  apply andb_true_intro. split.
+  - apply has_node_In. apply in_map_iff. exists (u, a). split; [reflexivity | exact Hin].
+  - rewrite (adj_of_In g u a Hn Hin). unfold adj_dict_eqb. rewrite Nat.eqb_refl. cbn [andb].
+    apply forallb_forall. intros [v r] Hv. cbn [fst snd]. destruct (Hw _ _ Hin) as [Ha _].
+    rewrite (adj_lookup_NoDup a v r Ha Hv). apply expr_eqb_spec. reflexivity.
+Qed.
+
+Lemma cs_eq_refl_lemma g t : WF g -> dosing_compartments g <> None -> cs_eq (g, t) (g, t) = Some true.
+Proof.
+  intros Hwf Hd. unfold cs_eq. rewrite (proj2 (expr_eqb_spec t t) eq_refl), (dod_eqb_refl g Hwf). cbn [negb].
+  destruct (dosing_compartments g) as [d|]; [|congruence]. f_equal.
+  apply (list_eqb_spec comp_eqb comp_eqb_spec). reflexivity.
+Qed.
+
+Lemma cs_eq_raises_lemma g t : WF g -> dosing_compartments g = None -> cs_eq (g, t) (g, t) = None.
+Proof.
+  intros Hwf Hd. unfold cs_eq. rewrite (proj2 (expr_eqb_spec t t) eq_refl), (dod_eqb_refl g Hwf). cbn [negb].
+  rewrite Hd. reflexivity.
+Qed.
+
+Definition defined_b (r : env) (fi : finterp) (e : expr) : bool :=
+  match eval r fi e with Some _ => true | None => false end.
+Definition rates_defined_b (g : graph) (r : env) (fi : finterp) : bool :=
+  forallb (fun p => forallb (fun e => defined_b r fi (snd e)) (snd p)) g.
+Definition comps_defined_b (g : graph) (r : env) (fi : finterp) : bool :=
+  forallb (fun c => defined_b r fi (c_amount c) && defined_b r fi (c_input c)) (order g).
+
+Lemma defined_b_spec r fi e : defined_b r fi e = true -> eval r fi e <> None.
+Proof. unfold defined_b. destruct (eval r fi e); [discriminate | discriminate]. Qed.
+
+Lemma rates_defined_b_spec g r fi : rates_defined_b g r fi = true -> rates_defined g r fi.
+Proof.
+  unfold rates_defined_b, rates_defined. rewrite forallb_forall. intros H u a v e Hin Hv.
+  specialize (H _ Hin). cbn [snd] in H. rewrite forallb_forall in H. apply defined_b_spec. apply (H (v, e) Hv).
+Qed.
+
+Lemma comps_defined_b_spec g r fi : comps_defined_b g r fi = true -> comps_defined g r fi.
+Proof.
+  unfold comps_defined_b, comps_defined. rewrite forallb_forall. intros H c Hin. specialize (H _ Hin).
+  apply andb_prop in H. destruct H as [H1 H2]. split; apply defined_b_spec; assumption.
+Qed.
+
+(* ================================================================================================ *)
+(* 9. one shared order; matrix entries                                                              *)
+(* ================================================================================================ *)
+Lemma matrix_offdiag_lemma g ns row col :
+  row <> col -> matrix_entry g ns row col = get_flow g (Cmt (nthc ns col)) (Cmt (nthc ns row)).
+Proof. intros H. unfold matrix_entry. apply Nat.eqb_neq in H. rewrite H. reflexivity. Qed.
+
+Lemma matrix_diag_lemma g ns j r fi (kv : nat -> Q) (ko : Q) :
+  (forall j', j' < length ns -> j' <> j -> ev r fi (get_flow g (Cmt (nthc ns j)) (Cmt (nthc ns j'))) (kv j')) ->
+  ev r fi (get_flow g (Cmt (nthc ns j)) Out) ko ->
+  ev r fi (matrix_entry g ns j j)
+     (- (qsum (map (fun j' => if Nat.eqb j j' then 0%Q else kv j') (seq 0 (length ns))) + ko))%Q.
+Proof. intros Hk Ho. unfold matrix_entry. rewrite Nat.eqb_refl. apply diag_entry_lemma; assumption. Qed.
+
+Lemma nth_map_seq {A} (f : nat -> A) (d : A) n i : i < n -> nth i (map f (seq 0 n)) d = f i.
+Proof.
+  intros H. rewrite (nth_indep _ d (f 0)) by (rewrite map_length, seq_length; exact H).
+  rewrite map_nth, seq_nth by exact H. reflexivity.
+Qed.
+
+Lemma order_shared_lemma g :
+  compartment_names g = map c_name (order g) /\
+  amounts g = map c_amount (order g) /\
+  zero_order_inputs g = map c_input (order g) /\
+  eqs_lhs g = map c_amount (order g) /\
+  length (eqs_rhs g) = length (order g) /\
+  length (compartmental_matrix g) = length (order g) /\
+  (forall row, In row (compartmental_matrix g) -> length row = length (order g)) /\
+  (forall i j, i < length (order g) -> j < length (order g) ->
+     nth j (nth i (compartmental_matrix g) []) (Num 0%Q) = matrix_entry g (order g) i j) /\
+  (forall i, i < length (order g) -> nth i (eqs_rhs g) (Num 0%Q) = eq_rhs_on g (order g) i).
+Proof.
+  repeat split; try reflexivity.
+  - unfold eqs_rhs. rewrite map_length, seq_length. reflexivity.
+  - unfold compartmental_matrix, matrix_on. rewrite map_length, seq_length. reflexivity.
+  - intros row Hin. unfold compartmental_matrix, matrix_on in Hin. apply in_map_iff in Hin.
+    destruct Hin as [i [E _]]. subst row. rewrite map_length, seq_length. reflexivity.
+  - intros i j Hi Hj. unfold compartmental_matrix, matrix_on.
+    rewrite (nth_map_seq (fun row => map (fun col => matrix_entry g (order g) row col) (seq 0 (length (order g)))) [] _ i Hi).
+    apply (nth_map_seq (fun col => matrix_entry g (order g) i col) (Num 0%Q) _ j Hj).
+  - intros i Hi. unfold eqs_rhs. apply (nth_map_seq (eq_rhs_on g (order g)) (Num 0%Q) _ i Hi).
+Qed.
+
+(* ================================================================================================ *)
+(* 10. The diagonal is minus the sum of ALL edges leaving the compartment; per-compartment balance  *)
+(* ================================================================================================ *)
+Lemma qsum_perm l l' : Permutation l l' -> (qsum l == qsum l')%Q.
+Proof.
+  induction 1; cbn [qsum fold_right].
+  - reflexivity.
+  - fold (qsum l) (qsum l'). rewrite IHPermutation. reflexivity.
+  - fold (qsum l). ring.
+  - rewrite IHPermutation1. exact IHPermutation2.
+Qed.
+
+(* sum over a duplicate-free list of a function that is replaced at one element *)
+Lemma qsum_replace_elem (f : comp -> Q) (d : Q) (c0 : comp) : forall U, NoDup U -> In c0 U ->
+  (qsum (map (fun x => if comp_eqb x c0 then d else f x) U) == d + qsum (map f U) - f c0)%Q.
+Proof.
+  induction U as [|x tl IH]; intros Hn Hin; [destruct Hin|]. cbn [map qsum fold_right].
+  fold (qsum (map f tl)) (qsum (map (fun x => if comp_eqb x c0 then d else f x) tl)).
+  inversion Hn as [|? ? Hx Ht]; subst. destruct (comp_eqb x c0) eqn:E.
+  - apply comp_eqb_spec in E. subst x.
+    rewrite (qsum_ext (fun x => if comp_eqb x c0 then d else f x) f).
+    + ring.
+    + intros y Hy. destruct (comp_eqb y c0) eqn:E'; [apply comp_eqb_spec in E'; subst; contradiction | reflexivity].
+  - apply comp_eqb_false in E. destruct Hin as [Hin|Hin]; [congruence|]. rewrite (IH Ht Hin). ring.
+Qed.
+
+Lemma comp_eqb_sym a b : comp_eqb a b = comp_eqb b a.
+Proof.
+  destruct (comp_eqb a b) eqn:E1, (comp_eqb b a) eqn:E2; try reflexivity.
+  - apply comp_eqb_spec in E1. subst. rewrite comp_eqb_refl in E2. discriminate.
+  - apply comp_eqb_spec in E2. subst. rewrite comp_eqb_refl in E1. discriminate.
+Qed.
+
+Definition is_cmt (n : node) : bool := match n with Cmt _ => true | Out => false end.
+
+Lemma flow_sum_lemma (val : expr -> Q) (U : list comp) :
+  (val (Num 0%Q) == 0)%Q -> NoDup U ->
+  forall a, NoDup (map fst a) -> (forall c r, In (Cmt c, r) a -> In c U) ->
+  (qsum (map (fun c' => val (match adj_lookup a (Cmt c') with Some r => r | None => Num 0%Q end)) U)
+   == qsum (map (fun e => val (snd e)) (filter (fun e => is_cmt (fst e)) a)))%Q.
+Proof.
+  intros H0 HU. induction a as [|[v r] tl IH]; intros Ha Hin.
+  - cbn [adj_lookup filter map qsum fold_right].
+    rewrite (qsum_ext _ (fun _ => 0%Q)) by (intros; exact H0). apply qsum_zero.
+  - cbn [map fst] in Ha. inversion Ha as [|? ? Hv Ht]; subst.
+    assert (Hin' : forall c r0, In (Cmt c, r0) tl -> In c U) by (intros c r0 Hc; eapply Hin; right; exact Hc).
+    destruct v as [|c0].
+    + cbn [filter fst is_cmt adj_lookup node_eqb]. apply IH; assumption.
+    + cbn [filter fst is_cmt map snd qsum fold_right].
+      fold (qsum (map (fun e => val (snd e)) (filter (fun e => is_cmt (fst e)) tl))).
+      rewrite <- (IH Ht Hin').
+      rewrite (qsum_ext _ (fun c' => if comp_eqb c' c0 then val r
+                                     else val (match adj_lookup tl (Cmt c') with Some r0 => r0 | None => Num 0%Q end))).
+      * rewrite qsum_replace_elem; [|exact HU | eapply Hin; left; reflexivity].
+        assert (E : adj_lookup tl (Cmt c0) = None).
+        { destruct (adj_lookup tl (Cmt c0)) as [r0|] eqn:E; [|reflexivity]. apply adj_lookup_In in E.
+          exfalso. apply Hv. apply in_map_iff. exists (Cmt c0, r0). split; [reflexivity | exact E]. }
+        rewrite E, H0. ring.
+      * intros c' _. cbn [adj_lookup node_eqb]. rewrite (comp_eqb_sym c0 c'). destruct (comp_eqb c' c0); reflexivity.
+Qed.
+
+Lemma out_split_lemma (val : expr -> Q) :
+  (val (Num 0%Q) == 0)%Q -> forall a, NoDup (map fst a) ->
+  (qsum (map (fun e => val (snd e)) a)
+   == qsum (map (fun e => val (snd e)) (filter (fun e => is_cmt (fst e)) a))
+      + val (match adj_lookup a Out with Some r => r | None => Num 0%Q end))%Q.
+Proof.
+  intros H0. induction a as [|[v r] tl IH]; intros Ha.
+  - cbn [map filter adj_lookup qsum fold_right]. rewrite H0. ring.
+  - cbn [map fst] in Ha. inversion Ha as [|? ? Hv Ht]; subst. cbn [map snd qsum fold_right].
+    fold (qsum (map (fun e => val (snd e)) tl)). rewrite (IH Ht). destruct v as [|c0].
+    + cbn [filter fst is_cmt adj_lookup node_eqb].
+      assert (E : adj_lookup tl Out = None).
+      { destruct (adj_lookup tl Out) as [r0|] eqn:E; [|reflexivity]. apply adj_lookup_In in E.
+        exfalso. apply Hv. apply in_map_iff. exists (Out, r0). split; [reflexivity | exact E]. }
+      rewrite E, H0. ring.
+    + cbn [filter fst is_cmt adj_lookup node_eqb map snd qsum fold_right].
+      fold (qsum (map (fun e => val (snd e)) (filter (fun e => is_cmt (fst e)) tl))). ring.
+Qed.
+
+(* sum over an adjacency = sum over the entries to other nodes + the entry to n itself (if any) *)
+Lemma self_split_lemma (val : expr -> Q) (n : node) :
+  (val (Num 0%Q) == 0)%Q -> forall a, NoDup (map fst a) ->
+  (qsum (map (fun e => val (snd e)) a)
+   == qsum (map (fun e => val (snd e)) (filter (fun e => negb (node_eqb (fst e) n)) a))
+      + val (match adj_lookup a n with Some r => r | None => Num 0%Q end))%Q.
+Proof.
+  intros H0. induction a as [|[v r] tl IH]; intros Ha.
+  - cbn [map filter adj_lookup qsum fold_right]. rewrite H0. ring.
+  - cbn [map fst] in Ha. inversion Ha as [|? ? Hv Ht]; subst. cbn [map snd qsum fold_right filter fst adj_lookup].
+    fold (qsum (map (fun e => val (snd e)) tl)). rewrite (IH Ht). destruct (node_eqb v n) eqn:E; cbn [negb].
+    + apply node_eqb_spec in E. subst v.
+      assert (El : adj_lookup tl n = None).
+      { destruct (adj_lookup tl n) as [r0|] eqn:El; [|reflexivity]. apply adj_lookup_In in El.
+        exfalso. apply Hv. apply in_map_iff. exists (n, r0). split; [reflexivity | exact El]. }
+      rewrite El, H0. unfold qsum. ring.
+    + cbn [map snd qsum fold_right]. unfold qsum. ring.
+Qed.
+
+Lemma split_algebra (s a b d c : Q) : (s == a + b)%Q -> (s == d + c)%Q -> (0 + a - c + b == d)%Q.
+Proof. intros H1 H2. rewrite H1 in H2. assert (H : (d == a + b - c)%Q) by (rewrite H2; ring). rewrite H. ring. Qed.
+
+(* The diagonal entry of compartment number i is minus the sum of the rates of the edges leaving it in
+   the graph to the OTHER compartments and to output (a flow to itself does not count). *)
+Theorem diag_total_outflow_lemma g r fi i :
+  WF g -> rates_defined g r fi -> i < length (order g) ->
+  let c := nthc (order g) i in
+  ev r fi (diag_entry g (order g) i)
+     (- qsum (map (fun e => oval (eval r fi (snd e)))
+                  (filter (fun e => negb (node_eqb (fst e) (Cmt c))) (adj_of g (Cmt c)))))%Q.
+Proof.
+  intros Hwf Hr Hi c. pose proof Hwf as [_ [Hn Hw]].
+  assert (Hc : In c (comps g)).
+  { apply (Permutation_in _ (order_perm_lemma g Hwf)). apply nthc_In, Hi. }
+  assert (Hin : In (Cmt c, adj_of g (Cmt c)) g).
+  { destruct (adj_of_cases g (Cmt c)) as [H|[_ H]]; [exact H|]. exfalso. apply H. apply comps_In. exact Hc. }
+  destruct (Hw _ _ Hin) as [Ha Hv].
+  set (val := fun e => oval (eval r fi e)).
+  assert (H0 : (val (Num 0%Q) == 0)%Q) by reflexivity.
+  set (n := length (order g)).
+  set (kv := fun j => val (get_flow g (Cmt c) (Cmt (nthc (order g) j)))).
+  eapply ev_compat.
+  - apply (diag_entry_lemma g (order g) i r fi kv (val (get_flow g (Cmt c) Out))).
+    + intros j _ _. apply ev_oval, get_flow_defined, Hr.
+    + apply ev_oval, get_flow_defined, Hr.
+  - apply Qopp_comp. fold n.
+    rewrite (qsum_ext (fun j => if Nat.eqb i j then 0%Q else kv j) (fun j => if Nat.eqb j i then 0%Q else kv j))
+      by (intros j _; rewrite (Nat.eqb_sym i j); reflexivity).
+    rewrite (qsum_replace_at kv 0%Q i n 0) by (fold n in Hi; lia).
+    (* sum over the order = sum over the edges to compartments *)
+    assert (E1 : (qsum (map kv (seq 0 n))
+                  == qsum (map (fun e => val (snd e)) (filter (fun e => is_cmt (fst e)) (adj_of g (Cmt c)))))%Q).
+    { unfold kv, n. rewrite <- (qsum_map_nth (fun c' => val (get_flow g (Cmt c) (Cmt c'))) (order g)).
+      eapply Qeq_trans; [apply (qsum_perm _ _ (Permutation_map _ (order_perm_lemma g Hwf)))|].
+      unfold get_flow. apply (flow_sum_lemma val (comps g) H0 (comps_NoDup g Hn) _ Ha).
+      intros c' r' Hc'. apply comps_In. eapply Hv. exact Hc'. }
+    pose proof (out_split_lemma val H0 _ Ha) as E2.
+    pose proof (self_split_lemma val (Cmt c) H0 _ Ha) as E3.
+    assert (E4 : (kv i == val (match adj_lookup (adj_of g (Cmt c)) (Cmt c) with Some r0 => r0 | None => Num 0%Q end))%Q).
+    { unfold kv. fold c. reflexivity. }
+    unfold get_flow at 1. rewrite E1, E4.
+    apply (split_algebra _ _ _ _ _ E2 E3).
+Qed.
+
+(* per compartment: d A_i/dt = inflows from the others - outflows to the others and to output + input *)
+Theorem node_balance_lemma g ns r fi i (kv : nat -> nat -> Q) (ko av uv : nat -> Q) :
+  let n := length ns in
+  i < n ->
+  (forall i j, i < n -> j < n -> i <> j -> ev r fi (get_flow g (Cmt (nthc ns j)) (Cmt (nthc ns i))) (kv j i)) ->
+  (forall j, j < n -> ev r fi (get_flow g (Cmt (nthc ns j)) Out) (ko j)) ->
+  (forall j, j < n -> ev r fi (c_amount (nthc ns j)) (av j)) ->
+  (forall j, j < n -> ev r fi (c_input (nthc ns j)) (uv j)) ->
+  ev r fi (eq_rhs_on g ns i)
+     (qsum (map (fun j => if Nat.eqb j i then 0 else kv j i * av j) (seq 0 n))
+      - (qsum (map (fun j => if Nat.eqb j i then 0 else kv i j) (seq 0 n)) + ko i) * av i + uv i)%Q.
+Proof.
+  intros n Hi Hk Ho Ha Hu.
+  pose proof (matrix_entry_value g ns r fi kv ko Hk Ho) as Hm. fold n in Hm.
+  eapply ev_compat.
+  - apply (eqs_entrywise_lemma g ns r fi i
+             (fun j => if Nat.eqb i j
+                       then (- (qsum (map (fun i' => if Nat.eqb j i' then 0%Q else kv j i') (seq 0 n)) + ko j))%Q
+                       else kv j i) av (uv i)); fold n.
+    + intros j Hj. apply (Hm i j Hi Hj).
+    + exact Ha.
+    + apply Hu, Hi.
+  - fold n. apply Qplus_comp; [|reflexivity].
+    set (d := (- (qsum (map (fun i' => if Nat.eqb i i' then 0%Q else kv i i') (seq 0 n)) + ko i))%Q).
+    rewrite (qsum_ext _ (fun j => if Nat.eqb j i then (d * av i)%Q else (kv j i * av j)%Q)).
+    + rewrite (qsum_replace_at (fun j => (kv j i * av j)%Q) _ i n 0) by lia.
+      rewrite (qsum_replace_at (fun j => (kv j i * av j)%Q) 0%Q i n 0) by lia.
+      unfold d.
+      rewrite (qsum_ext (fun i' => if Nat.eqb i i' then 0%Q else kv i i') (fun j => if Nat.eqb j i then 0%Q else kv i j))
+        by (intros j _; rewrite (Nat.eqb_sym i j); reflexivity).
+      ring.
+    + intros j _. rewrite (Nat.eqb_sym j i). destruct (Nat.eqb i j) eqn:Ej; [apply Nat.eqb_eq in Ej; subst j; unfold d|]; reflexivity.
+Qed.
+
+(* ================================================================================================ *)
+(* 11. The BFS of the model is complete (the fuel never runs out): its result is closed under        *)
+(*     successors                                                                                     *)
+(* ================================================================================================ *)
+Lemma visit_fold_lengths l : forall q s q' s',
+  fold_left visit l (q, s) = (q', s') -> length q' + length s = length q + length s'.
+Proof.
+  induction l as [|x tl IH]; intros q s q' s' H; cbn [fold_left] in H.
+  - injection H as <- <-. lia.
+  - unfold visit at 2 in H. destruct (memc x s).
+    + apply IH, H.
+    + apply IH in H. rewrite !app_length in H. cbn [length] in H. lia.
+Qed.
+
+Lemma visit_fold_queue l : forall q s q' s',
+  fold_left visit l (q, s) = (q', s') ->
+  (forall c, In c q -> In c q') /\ (forall c, In c s' -> In c s \/ In c q').
+Proof.
+  induction l as [|x tl IH]; intros q s q' s' H; cbn [fold_left] in H.
+  - injection H as <- <-. split; auto.
+  - unfold visit at 2 in H. destruct (memc x s).
+    + apply IH, H.
+    + destruct (IH _ _ _ _ H) as [H1 H2]. split.
+      * intros c Hc. apply H1, in_or_app. left. exact Hc.
+      * intros c Hc. apply H2 in Hc. rewrite in_app_iff in Hc. destruct Hc as [[Hc|[Hc|[]]]|Hc]; auto.
+        subst. right. apply H1, in_or_app. right. left. reflexivity.
+Qed.
+
+Lemma bfs_loop_closed g (U : list comp) :
+  (forall p c, In c (nbrs g p) -> In c U) ->
+  forall fuel queue seen,
+    NoDup seen -> (forall c, In c seen -> In c U) ->
+    length queue + S (length U) <= fuel + length seen ->
+    (forall p, In p seen -> In p queue \/ forall c, In c (nbrs g p) -> In c seen) ->
+    forall p c, In p (bfs_loop g fuel queue seen) -> In c (nbrs g p) -> In c (bfs_loop g fuel queue seen).
+Proof.
+  intros HU. induction fuel as [|f IH]; intros queue seen Hn Hs Hf Hinv p c Hp Hc; cbn [bfs_loop] in *.
+  - exfalso. pose proof (NoDup_incl_length Hn Hs). lia.
+  - destruct queue as [|p0 q].
+    + destruct (Hinv p Hp) as [[]|H]. apply H, Hc.
+    + destruct (fold_left visit (nbrs g p0) (q, seen)) as [q' seen'] eqn:E.
+      destruct (visit_fold _ _ _ _ _ E) as [V1 [_ [V3 _]]].
+      pose proof (visit_fold_lengths _ _ _ _ _ E) as VL.
+      destruct (visit_fold_queue _ _ _ _ _ E) as [VQ1 VQ2].
+      refine (IH q' seen' _ _ _ _ p c Hp Hc).
+      * apply V3, Hn.
+      * intros x Hx. apply V1 in Hx. destruct Hx as [Hx|Hx]; [apply Hs, Hx | apply (HU p0), Hx].
+      * cbn [length] in Hf. lia.
+      * intros x Hx. destruct (VQ2 x Hx) as [Hx'|Hx']; [|left; exact Hx'].
+        destruct (Hinv x Hx') as [[Hq|Hq]|Hq].
+        -- subst x. right. intros y Hy. apply V1. right. exact Hy.
+        -- left. apply VQ1, Hq.
+        -- right. intros y Hy. apply V1. left. apply Hq, Hy.
+Qed.
+
+Theorem bfs_closed_lemma g src :
+  WF g -> In src (comps g) ->
+  forall p c, In p (bfs g src) -> In c (nbrs g p) -> In c (bfs g src).
+Proof.
+  intros Hwf Hsrc. unfold bfs. apply (bfs_loop_closed g (comps g)).
+  - intros p c Hc. eapply nbrs_in_comps; eassumption.
+  - constructor; [intros [] | constructor].
+  - intros c [Hc|[]]. subst. exact Hsrc.
+  - cbn [length]. assert (length (comps g) <= length g).
+    { clear. induction g as [|[[|c] a] tl IH]; cbn [comps length]; lia. }
+    lia.
+  - intros p [Hp|[]]. subst. left. left. reflexivity.
+Qed.
+
+Lemma nbrs_In g p c : In c (nbrs g p) <-> exists r, In (Cmt c, r) (adj_of g (Cmt p)).
+Proof. unfold nbrs. rewrite sort_by_name_In. apply adj_comps_In. Qed.
+
+(* ================================================================================================ *)
+(* 12. subs keeps the structure and substitutes every expression                                    *)
+(* ================================================================================================ *)
+Definition subs_graph (m : list (id * expr)) (g : graph) : graph := fst (cs_subs m (g, Num 0%Q)).
+
+Lemma node_subs_name m n n' : node_subs m n = node_subs m n' ->
+  match n, n' with Cmt c, Cmt c' => c_name c = c_name c' | Out, Out => True | _, _ => False end.
+Proof. destruct n as [|c], n' as [|c']; cbn; intros H; try discriminate; [exact I|]. injection H as H _. exact H. Qed.
+
+Lemma names_unique_spec l : names_unique l = true -> forall c c', In c l -> In c' l -> c_name c = c_name c' -> c = c'.
+Proof.
+  induction l as [|x tl IH]; cbn [names_unique]; intros H c c' Hc Hc' E; [destruct Hc|].
+  apply andb_prop in H. destruct H as [H1 H2]. apply negb_true_iff in H1.
+  assert (Hx : forall y, In y tl -> c_name y <> c_name x).
+  { intros y Hy Ey. assert (existsb (fun c' => name_eqb (c_name c') (c_name x)) tl = true).
+    { apply existsb_exists. exists y. split; [exact Hy | apply name_eqb_spec, Ey]. }
+    congruence. }
+  destruct Hc as [Hc|Hc], Hc' as [Hc'|Hc']; subst.
+  - reflexivity.
+  - exfalso. apply (Hx c' Hc'). symmetry. exact E.
+  - exfalso. apply (Hx c Hc). exact E.
+  - apply IH; assumption.
+Qed.
+
+Lemma node_subs_inj m g : names_unique (comps g) = true ->
+  forall n n', In n (nodes g) -> In n' (nodes g) -> node_subs m n = node_subs m n' -> n = n'.
+Proof.
+  intros Hu n n' Hn Hn' E. apply node_subs_name in E. destruct n as [|c], n' as [|c']; try contradiction; [reflexivity|].
+  f_equal. apply (names_unique_spec _ Hu); [apply comps_In, Hn | apply comps_In, Hn' | exact E].
+Qed.
+
+Lemma adj_lookup_subs m (a : adj) (v : node) :
+  (forall w w', In w (v :: map fst a) -> In w' (v :: map fst a) -> node_subs m w = node_subs m w' -> w = w') ->
+  adj_lookup (map (fun e => (node_subs m (fst e), subs_map m (snd e))) a) (node_subs m v)
+  = option_map (subs_map m) (adj_lookup a v).
+Proof.
+  induction a as [|[w x] tl IH]; intros Hinj; cbn [map adj_lookup fst snd]; [reflexivity|].
+  destruct (node_eqb w v) eqn:E.
+  - apply node_eqb_spec in E. subst. rewrite node_eqb_refl. reflexivity.
+  - destruct (node_eqb (node_subs m w) (node_subs m v)) eqn:E'.
+    + apply node_eqb_spec in E'. apply Hinj in E'; [|right; left; reflexivity | left; reflexivity].
+      subst. rewrite node_eqb_refl in E. discriminate.
+    + apply IH. intros a1 a2 H1 H2. apply Hinj; cbn [map fst In] in *; tauto.
+Qed.
+
+Lemma adj_of_subs m (g0 : graph) : forall g u,
+  (forall w w', In w (u :: nodes g) -> In w' (u :: nodes g) -> node_subs m w = node_subs m w' -> w = w') ->
+  adj_of (map (fun p => (node_subs m (fst p), map (fun e => (node_subs m (fst e), subs_map m (snd e))) (snd p))) g) (node_subs m u)
+  = map (fun e => (node_subs m (fst e), subs_map m (snd e))) (adj_of g u).
+Proof.
+  induction g as [|[w a] tl IH]; intros u Hinj; cbn [map adj_of fst snd]; [reflexivity|].
+  destruct (node_eqb w u) eqn:E.
+  - apply node_eqb_spec in E. subst. rewrite node_eqb_refl. reflexivity.
+  - destruct (node_eqb (node_subs m w) (node_subs m u)) eqn:E'.
+    + apply node_eqb_spec in E'. apply Hinj in E'; [|right; left; reflexivity | left; reflexivity].
+      subst. rewrite node_eqb_refl in E. discriminate.
+    + apply IH. intros a1 a2 H1 H2. apply Hinj; cbn [nodes map fst In] in *; tauto.
+Qed.
+
+(* every flow of the substituted system is the substituted flow of the original system *)
+Theorem subs_preserves_flows_lemma m g u v :
+  WF g -> names_unique (comps g) = true -> In u (nodes g) -> In v (nodes g) ->
+  get_flow (subs_graph m g) (node_subs m u) (node_subs m v) = subs_map m (get_flow g u v).
+Proof.
+  intros Hwf Hu Hin Hv. unfold subs_graph, cs_subs, get_flow. cbn [fst].
+  pose proof (node_subs_inj m g Hu) as Hinj.
+  rewrite (adj_of_subs m g g u).
+  - rewrite adj_lookup_subs.
+    + destruct (adj_lookup (adj_of g u) v); reflexivity.
+    + intros w w' Hw Hw'. apply Hinj.
+      * destruct Hw as [Hw|Hw]; [subst; exact Hv|]. destruct Hwf as [_ [Hn H]].
+        apply in_map_iff in Hw. destruct Hw as [[w0 r0] [E Hw]]. cbn [fst] in E. subst w0.
+        destruct (adj_of_cases g u) as [Hc|[Hc _]]; [eapply (H _ _ Hc), Hw | rewrite Hc in Hw; destruct Hw].
+      * destruct Hw' as [Hw'|Hw']; [subst; exact Hv|]. destruct Hwf as [_ [Hn H]].
+        apply in_map_iff in Hw'. destruct Hw' as [[w0 r0] [E Hw']]. cbn [fst] in E. subst w0.
+        destruct (adj_of_cases g u) as [Hc|[Hc _]]; [eapply (H _ _ Hc), Hw' | rewrite Hc in Hw'; destruct Hw'].
+  - intros w w' Hw Hw'. apply Hinj.
+    + destruct Hw as [Hw|Hw]; [subst; exact Hin | exact Hw].
+    + destruct Hw' as [Hw'|Hw']; [subst; exact Hin | exact Hw'].
+Qed.
+
+(* ... so it evaluates, in any environment, like the original flow in the substituted environment *)
+Theorem subs_flow_eval_lemma m g u v r fi :
+  WF g -> names_unique (comps g) = true -> In u (nodes g) -> In v (nodes g) ->
+  eval r fi (get_flow (subs_graph m g) (node_subs m u) (node_subs m v)) = eval (upd_map r fi m) fi (get_flow g u v).
+Proof.
+  intros. rewrite subs_preserves_flows_lemma by assumption. apply subs_map_lemma.
+Qed.
+
+Lemma subs_nodes_lemma m g : nodes (subs_graph m g) = map (node_subs m) (nodes g).
+Proof. unfold subs_graph, cs_subs, nodes. cbn [fst]. rewrite !map_map. reflexivity. Qed.
+
+Lemma comp_subs_fields m c r fi :
+  c_name (comp_subs m c) = c_name c /\
+  eval r fi (c_input (comp_subs m c)) = eval (upd_map r fi m) fi (c_input c) /\
+  eval r fi (c_lag (comp_subs m c)) = eval (upd_map r fi m) fi (c_lag c) /\
+  eval r fi (c_bio (comp_subs m c)) = eval (upd_map r fi m) fi (c_bio c) /\
+  map dose_admid (c_doses (comp_subs m c)) = map dose_admid (doses_prop c) /\
+  map is_infusion (c_doses (comp_subs m c)) = map is_infusion (doses_prop c).
+Proof.
+  unfold comp_subs. cbn [c_name c_input c_lag c_bio c_doses]. repeat split; try apply subs_map_lemma.
+  - rewrite map_map. apply map_ext. intros [a i|a i ra du]; reflexivity.
+  - rewrite map_map. apply map_ext. intros [a i|a i ra du]; reflexivity.
+Qed.
+
+(* ---- corollaries for systems made by the builder ----------------------------------------------------- *)
+Lemma order_perm_built_lemma ops : Permutation (order (build ops)) (comps (build ops)).
+Proof. apply order_perm_lemma, build_WF. Qed.
+
+Lemma dict_roundtrip_built_lemma ops t : from_dict (to_dict (build ops, t)) = Some (build ops, t).
+Proof. apply dict_roundtrip_lemma, build_WF. Qed.
+
+Lemma dict_roundtrip_eq_lemma g t :
+  WF g -> dosing_compartments g <> None ->
+  exists s', from_dict (to_dict (g, t)) = Some s' /\ cs_eq s' (g, t) = Some true.
+Proof.
+  intros Hwf Hd. exists (g, t). split; [apply dict_roundtrip_lemma, Hwf | apply cs_eq_refl_lemma; assumption].
+Qed.
+
+(* ================================================================================================ *)
+(* 13. In-place relabelling keeps every flow                                                        *)
+(* ================================================================================================ *)
+Lemma node_eqb_sym a b : node_eqb a b = node_eqb b a.
+Proof.
+  destruct (node_eqb a b) eqn:E1, (node_eqb b a) eqn:E2; try reflexivity.
+  - apply node_eqb_spec in E1. subst. rewrite node_eqb_refl in E2. discriminate.
+  - apply node_eqb_spec in E2. subst. rewrite node_eqb_refl in E1. discriminate.
+Qed.
+
+Lemma adj_of_absent g x : ~ In x (nodes g) -> adj_of g x = [].
+Proof. intros H. destruct (adj_of_cases g x) as [Hin|[E _]]; [|exact E]. exfalso. apply H. apply in_map_iff. exists (x, adj_of g x). split; [reflexivity | exact Hin]. Qed.
+
+Lemma adj_of_app g1 g2 x : adj_of (g1 ++ g2) x = if has_node g1 x then adj_of g1 x else adj_of g2 x.
+Proof.
+  induction g1 as [|[w a] tl IH]; cbn [app adj_of has_node existsb fst]; [reflexivity|].
+  destruct (node_eqb w x); cbn [orb]; [reflexivity | exact IH].
+Qed.
+
+Lemma adj_of_add_node g n x : adj_of (add_node g n) x = adj_of g x.
+Proof.
+  unfold add_node. destruct (has_node g n) eqn:E; [reflexivity|]. rewrite adj_of_app.
+  destruct (has_node g x) eqn:Ex; [reflexivity|]. cbn [adj_of]. destruct (node_eqb n x); symmetry; apply adj_of_absent, has_node_false, Ex.
+Qed.
+
+Lemma adj_of_update_adj g u f x :
+  adj_of (update_adj g u f) x = if node_eqb x u && has_node g x then f (adj_of g x) else adj_of g x.
+Proof.
+  induction g as [|[w a] tl IH]; cbn [update_adj map adj_of has_node existsb fst snd].
+  - rewrite andb_false_r. reflexivity.
+  - destruct (node_eqb w u) eqn:Ewu; cbn [fst snd]; destruct (node_eqb w x) eqn:Ewx; cbn [orb].
+    + apply node_eqb_spec in Ewu, Ewx. subst u x. rewrite node_eqb_refl. reflexivity.
+    + exact IH.
+    + apply node_eqb_spec in Ewx. subst x. rewrite Ewu. reflexivity.
+    + exact IH.
+Qed.
+
+Lemma adj_lookup_adj_set a v r y : adj_lookup (adj_set a v r) y = if node_eqb y v then Some r else adj_lookup a y.
+Proof.
+  induction a as [|[w x] tl IH]; cbn [adj_set adj_lookup].
+  - rewrite (node_eqb_sym v y). destruct (node_eqb y v); reflexivity.
+  - destruct (node_eqb w v) eqn:Ewv; cbn [adj_lookup].
+    + apply node_eqb_spec in Ewv. subst. rewrite (node_eqb_sym v y). destruct (node_eqb y v); reflexivity.
+    + destruct (node_eqb w y) eqn:Ewy; [|exact IH]. apply node_eqb_spec in Ewy. subst.
+      rewrite Ewv. reflexivity.
+Qed.
+
+Lemma has_node_add_node g n x : has_node (add_node g n) x = has_node g x || node_eqb n x.
+Proof.
+  unfold add_node. destruct (has_node g n) eqn:E.
+  - destruct (node_eqb n x) eqn:E'; [apply node_eqb_spec in E'; subst; rewrite E; reflexivity | rewrite orb_false_r; reflexivity].
+  - unfold has_node. rewrite existsb_app. cbn [existsb fst]. rewrite orb_false_r. reflexivity.
+Qed.
+
+Lemma get_flow_add_edge g u v r x y :
+  get_flow (add_edge g u v r) x y = if node_eqb x u && node_eqb y v then r else get_flow g x y.
+Proof.
+  unfold get_flow, add_edge. rewrite adj_of_update_adj, !adj_of_add_node.
+  destruct (node_eqb x u) eqn:E; cbn [andb]; [|reflexivity].
+  apply node_eqb_spec in E. subst x. rewrite !has_node_add_node, node_eqb_refl, orb_true_r. cbn [orb].
+  rewrite adj_lookup_adj_set. destruct (node_eqb y v); reflexivity.
+Qed.
+
+Lemma adj_lookup_adj_remove a n y : adj_lookup (adj_remove a n) y = if node_eqb y n then None else adj_lookup a y.
+Proof.
+  induction a as [|[w x] tl IH]; cbn [adj_remove filter adj_lookup fst]; [destruct (node_eqb y n); reflexivity|].
+  fold (adj_remove tl n). destruct (node_eqb w n) eqn:Ewn; cbn [negb adj_lookup].
+  - apply node_eqb_spec in Ewn. subst w. rewrite IH. rewrite (node_eqb_sym n y). destruct (node_eqb y n); reflexivity.
+  - rewrite IH. destruct (node_eqb w y) eqn:Ewy; [|reflexivity]. apply node_eqb_spec in Ewy. subst. rewrite Ewn. reflexivity.
+Qed.
+
+Lemma adj_of_remove_node g n x :
+  adj_of (remove_node g n) x = if node_eqb x n then [] else adj_remove (adj_of g x) n.
+Proof.
+  unfold remove_node. induction g as [|[w a] tl IH]; cbn [filter map adj_of fst snd].
+  - destruct (node_eqb x n); reflexivity.
+  - destruct (node_eqb w n) eqn:Ewn; cbn [negb map adj_of fst snd].
+    + apply node_eqb_spec in Ewn. subst w. rewrite IH. rewrite (node_eqb_sym n x). destruct (node_eqb x n); reflexivity.
+    + destruct (node_eqb w x) eqn:Ewx.
+      * apply node_eqb_spec in Ewx. subst. rewrite Ewn. reflexivity.
+      * exact IH.
+Qed.
+
+Lemma get_flow_remove_node g n x y :
+  get_flow (remove_node g n) x y = if node_eqb x n || node_eqb y n then Num 0%Q else get_flow g x y.
+Proof.
+  unfold get_flow. rewrite adj_of_remove_node. destruct (node_eqb x n); cbn [orb adj_lookup]; [reflexivity|].
+  rewrite adj_lookup_adj_remove. destruct (node_eqb y n); reflexivity.
+Qed.
+
+Lemma get_flow_add_node g n x y : get_flow (add_node g n) x y = get_flow g x y.
+Proof. unfold get_flow. rewrite adj_of_add_node. reflexivity. Qed.
+
+Fixpoint flow_after (x y : node) (es : list (node * node * expr)) (base : expr) : expr :=
+  match es with
+  | [] => base
+  | (u, v, r) :: tl => flow_after x y tl (if node_eqb x u && node_eqb y v then r else base)
+  end.
+
+Lemma get_flow_fold_add_edge x y : forall es g,
+  get_flow (fold_left (fun acc e => let '(u, v, r) := e in add_edge acc u v r) es g) x y
+  = flow_after x y es (get_flow g x y).
+Proof.
+  induction es as [|[[u v] r] tl IH]; intros g; cbn [fold_left flow_after]; [reflexivity|].
+  rewrite IH, get_flow_add_edge. reflexivity.
+Qed.
+
+Lemma flow_after_app x y es1 es2 base : flow_after x y (es1 ++ es2) base = flow_after x y es2 (flow_after x y es1 base).
+Proof. revert base. induction es1 as [|[[u v] r] tl IH]; intros base; cbn [app flow_after]; [reflexivity | apply IH]. Qed.
+
+Section Relabel1.
+  Variable g : graph.
+  Variables old new : node.
+  Hypothesis Hwf : WF g.
+  Hypothesis Hold : In old (nodes g).
+  Hypothesis Hnew : ~ In new (nodes g).
+
+  Definition ren (n : node) : node := if node_eqb n old then new else n.
+
+  Lemma ren_inj u v : In u (nodes g) -> In v (nodes g) -> ren u = ren v -> u = v.
+  Proof.
+    unfold ren. intros Hu Hv. destruct (node_eqb u old) eqn:Eu, (node_eqb v old) eqn:Ev; intros E.
+    - apply node_eqb_spec in Eu, Ev. congruence.
+    - subst. contradiction.
+    - subst. contradiction.
+    - exact E.
+  Qed.
+
+  Lemma ren_eqb u v : In u (nodes g) -> In v (nodes g) -> node_eqb (ren u) (ren v) = node_eqb u v.
+  Proof.
+    intros Hu Hv. destruct (node_eqb u v) eqn:E.
+    - apply node_eqb_spec in E. subst. apply node_eqb_refl.
+    - apply node_eqb_false. intros E'. apply ren_inj in E'; try assumption. subst. rewrite node_eqb_refl in E. discriminate.
+  Qed.
+
+  Lemma ren_not_new_source x : In x (nodes g) -> x <> old -> node_eqb x new = false.
+  Proof. intros Hx _. apply node_eqb_false. intros E. subst. contradiction. Qed.
+
+  (* the out-edges of old, re-entered from new *)
+  Lemma flow_after_outs v : In v (nodes g) -> forall (A : adj) base,
+    NoDup (map fst A) -> (forall t r, In (t, r) A -> In t (nodes g)) ->
+    flow_after new (ren v) (map (fun p => (new, (if node_eqb (fst p) old then new else fst p), snd p)) A) base
+    = match adj_lookup A v with Some r => r | None => base end.
+  Proof.
+    intros Hv. induction A as [|[t r] tl IH]; intros base Hn Ht; cbn [map flow_after adj_lookup fst snd]; [reflexivity|].
+    cbn [map fst] in Hn. inversion Hn as [|? ? Hx Hn']; subst.
+    rewrite node_eqb_refl. cbn [andb]. fold (ren t).
+    rewrite (node_eqb_sym (ren v) (ren t)), ren_eqb; [|eapply Ht; left; reflexivity | exact Hv].
+    rewrite IH; [|exact Hn' | intros t' r' H'; eapply Ht; right; exact H'].
+    destruct (node_eqb t v) eqn:E; [|reflexivity].
+    apply node_eqb_spec in E. subst t.
+    destruct (adj_lookup tl v) as [r'|] eqn:El; [|reflexivity].
+    apply adj_lookup_In in El. exfalso. apply Hx. apply in_map_iff. exists (v, r'). split; [reflexivity | exact El].
+  Qed.
+
+  Lemma flow_after_other_source x y (A : adj) base :
+    node_eqb x new = false ->
+    flow_after x y (map (fun p => (new, (if node_eqb (fst p) old then new else fst p), snd p)) A) base = base.
+  Proof.
+    intros Hx. revert base. induction A as [|[t r] tl IH]; intros base; cbn [map flow_after fst snd]; [reflexivity|].
+    rewrite Hx. cbn [andb]. apply IH.
+  Qed.
+
+  Lemma flow_after_other_target x y (l : list (node * expr)) base :
+    node_eqb y new = false ->
+    flow_after x y (map (fun p => ((if node_eqb (fst p) old then new else fst p), new, snd p)) l) base = base.
+  Proof.
+    intros Hy. revert base. induction l as [|[t r] tl IH]; intros base; cbn [map flow_after fst snd]; [reflexivity|].
+    rewrite Hy, andb_false_r. apply IH.
+  Qed.
+
+  (* the in-edges of old, re-entered into new *)
+  Lemma flow_after_ins u : In u (nodes g) -> forall (l : graph) base,
+    NoDup (nodes l) -> (forall w, In w (nodes l) -> In w (nodes g)) ->
+    flow_after (ren u) new (map (fun p => ((if node_eqb (fst p) old then new else fst p), new, snd p)) (in_edges l old)) base
+    = match adj_lookup (adj_of l u) old with Some r => r | None => base end.
+  Proof.
+    intros Hu. induction l as [|[w a] tl IH]; intros base Hn Hsub; [reflexivity|].
+    cbn [nodes map fst] in Hn. inversion Hn as [|? ? Hw Hn']; subst. fold (nodes tl) in *.
+    unfold in_edges. cbn [flat_map fst snd]. fold (in_edges tl old). cbn [adj_of].
+    assert (Hsub' : forall w0, In w0 (nodes tl) -> In w0 (nodes g)) by (intros w0 H0; apply Hsub; right; exact H0).
+    assert (Hwg : In w (nodes g)) by (apply Hsub; left; reflexivity).
+    destruct (adj_lookup a old) as [r|] eqn:El.
+    - cbn [app map flow_after fst snd]. fold (ren w). rewrite node_eqb_refl, andb_true_r.
+      rewrite ren_eqb by assumption. rewrite (IH _ Hn' Hsub').
+      rewrite (node_eqb_sym w u). destruct (node_eqb u w) eqn:E.
+      + apply node_eqb_spec in E. subst w. rewrite (adj_of_absent tl u Hw). cbn [adj_lookup]. rewrite El. reflexivity.
+      + reflexivity.
+    - cbn [app]. rewrite (IH _ Hn' Hsub'). destruct (node_eqb w u) eqn:E; [|reflexivity].
+      apply node_eqb_spec in E. subst w. rewrite (adj_of_absent tl u Hw). cbn [adj_lookup]. rewrite El. reflexivity.
+  Qed.
+
+  Lemma in_edges_add_new : in_edges (add_node g new) old = in_edges g old.
+  Proof.
+    unfold add_node. rewrite (proj2 (has_node_false g new) Hnew). unfold in_edges. rewrite flat_map_app. cbn [flat_map snd adj_lookup app].
+    apply app_nil_r.
+  Qed.
+
+  Theorem relabel1_flows u v :
+    In u (nodes g) -> In v (nodes g) -> get_flow (relabel1 g old new) (ren u) (ren v) = get_flow g u v.
+  Proof.
+    intros Hu Hv. destruct Hwf as [_ [Hn Hw]]. unfold relabel1.
+    rewrite get_flow_fold_add_edge, flow_after_app, adj_of_add_node, in_edges_add_new.
+    rewrite get_flow_remove_node, get_flow_add_node.
+    assert (Hold_adj : In (old, adj_of g old) g).
+    { destruct (adj_of_cases g old) as [H|[_ H]]; [exact H | contradiction]. }
+    destruct (Hw _ _ Hold_adj) as [HA1 HA2].
+    assert (Hnew_old : node_eqb new old = false) by (apply node_eqb_false; intros E; subst; contradiction).
+    assert (Hflow_new : forall y, get_flow g new y = Num 0%Q).
+    { intros y. unfold get_flow. rewrite (adj_of_absent g new Hnew). reflexivity. }
+    assert (Hflow_to_new : forall x, get_flow g x new = Num 0%Q).
+    { intros x. unfold get_flow. destruct (adj_lookup (adj_of g x) new) as [r|] eqn:E; [|reflexivity].
+      apply adj_lookup_In in E. destruct (adj_of_cases g x) as [H|[H _]]; [|rewrite H in E; destruct E].
+      exfalso. apply Hnew. eapply (Hw _ _ H), E. }
+    assert (Er : ren old = new) by (unfold ren; rewrite node_eqb_refl; reflexivity).
+    pose proof (fun w (Hw0 : In w (nodes g)) base => flow_after_ins w Hw0 g base Hn (fun w' H => H)) as Hins.
+    pose proof (fun w (Hw0 : In w (nodes g)) base => flow_after_outs w Hw0 _ base HA1 HA2) as Houts.
+    destruct (node_eqb u old) eqn:Eu; destruct (node_eqb v old) eqn:Ev.
+    - (* old -> old *)
+      apply node_eqb_spec in Eu, Ev. subst u v.
+      specialize (Hins old Hold). specialize (Houts old Hold). rewrite Er in Hins, Houts. rewrite Er.
+      rewrite Hins, Houts, Hnew_old. cbn [orb]. rewrite Hflow_new. unfold get_flow.
+      destruct (adj_lookup (adj_of g old) old); reflexivity.
+    - (* old -> v *)
+      apply node_eqb_spec in Eu. subst u.
+      assert (Erv : ren v = v) by (unfold ren; rewrite Ev; reflexivity).
+      assert (Evn : node_eqb v new = false) by (apply node_eqb_false; intros E; subst; contradiction).
+      specialize (Houts v Hv). rewrite Erv in Houts. rewrite Er, Erv.
+      rewrite flow_after_other_target by exact Evn.
+      rewrite Houts, Hnew_old, Ev. cbn [orb]. rewrite Hflow_new.
+      unfold get_flow. destruct (adj_lookup (adj_of g old) v); reflexivity.
+    - (* u -> old *)
+      apply node_eqb_spec in Ev. subst v.
+      assert (Eru : ren u = u) by (unfold ren; rewrite Eu; reflexivity).
+      assert (Eun : node_eqb u new = false) by (apply node_eqb_false; intros E; subst; contradiction).
+      specialize (Hins u Hu). rewrite Eru in Hins. rewrite Er, Eru.
+      rewrite (flow_after_other_source u new _ _ Eun).
+      rewrite Hins, Eu, Hnew_old. cbn [orb]. rewrite Hflow_to_new.
+      unfold get_flow. destruct (adj_lookup (adj_of g u) old); reflexivity.
+    - (* u -> v *)
+      assert (Eru : ren u = u) by (unfold ren; rewrite Eu; reflexivity).
+      assert (Erv : ren v = v) by (unfold ren; rewrite Ev; reflexivity).
+      assert (Eun : node_eqb u new = false) by (apply node_eqb_false; intros E; subst; contradiction).
+      assert (Evn : node_eqb v new = false) by (apply node_eqb_false; intros E; subst; contradiction).
+      rewrite Eru, Erv. rewrite flow_after_other_target by exact Evn.
+      rewrite (flow_after_other_source u v _ _ Eun). rewrite Eu, Ev. reflexivity.
+  Qed.
+End Relabel1.
+
+
+Lemma relabel_single g old new :
+  NoDup (nodes g) -> In old (nodes g) ->
+  relabel g [(old, new)] = if node_eqb new old then g else relabel1 g old new.
+Proof.
+  intros Hn Hin. unfold relabel.
+  set (step := fun acc old0 => match map_lookup [(old, new)] old0 with
+                               | Some new0 => if node_eqb new0 old0 then acc
+                                              else if has_node acc old0 then relabel1 acc old0 new0 else acc
+                               | None => acc end).
+  assert (Hno : forall l acc, ~ In old l -> fold_left step l acc = acc).
+  { induction l as [|n tl IH]; intros acc Hnot; cbn [fold_left]; [reflexivity|].
+    assert (E : step acc n = acc).
+    { unfold step. cbn [map_lookup]. destruct (node_eqb old n) eqn:E; [|reflexivity].
+      apply node_eqb_spec in E. subst. exfalso. apply Hnot. left. reflexivity. }
+    rewrite E. apply IH. intros H. apply Hnot. right. exact H. }
+  assert (Hgen : forall l acc, NoDup l -> In old l -> fold_left step l acc = step acc old).
+  { induction l as [|n tl IH]; intros acc Hnd Hl; [destruct Hl|]. cbn [fold_left].
+    inversion Hnd as [|? ? Hx Ht]; subst. destruct Hl as [Hl|Hl].
+    - subst n. apply Hno. exact Hx.
+    - assert (E : step acc n = acc).
+      { unfold step. cbn [map_lookup]. destruct (node_eqb old n) eqn:E; [|reflexivity].
+        apply node_eqb_spec in E. subst. contradiction. }
+      rewrite E. apply IH; assumption. }
+  rewrite (Hgen (nodes g) g Hn Hin). unfold step. cbn [map_lookup]. rewrite node_eqb_refl.
+  rewrite (proj2 (has_node_In g old) Hin). reflexivity.
+Qed.
+
+Lemma find_compartment_In g nm c : find_compartment g nm = Some c -> In (Cmt c) (nodes g) /\ c_name c = nm.
+Proof.
+  induction g as [|[[|c0] a] tl IH]; cbn [find_compartment nodes map fst In]; [discriminate | |].
+  - intros H. destruct (IH H) as [H1 H2]. split; [right; exact H1 | exact H2].
+  - destruct (name_eqb (c_name c0) nm) eqn:E.
+    + intros H. injection H as <-. split; [left; reflexivity | apply name_eqb_spec, E].
+    + intros H. destruct (IH H) as [H1 H2]. split; [right; exact H1 | exact H2].
+Qed.
+
+(* relabelling one compartment by an updated copy (same name) keeps every flow *)
+Theorem relabel_same_name_flows g c c' u v :
+  WF g -> names_unique (comps g) = true -> In (Cmt c) (nodes g) -> c_name c' = c_name c ->
+  In u (nodes g) -> In v (nodes g) ->
+  get_flow (relabel g [(Cmt c, Cmt c')]) (ren (Cmt c) (Cmt c') u) (ren (Cmt c) (Cmt c') v) = get_flow g u v.
+Proof.
+  intros Hwf Hu Hc Hname Hiu Hiv. pose proof Hwf as [_ [Hn _]].
+  rewrite (relabel_single g (Cmt c) (Cmt c') Hn Hc).
+  destruct (node_eqb (Cmt c') (Cmt c)) eqn:E.
+  - apply node_eqb_spec in E. injection E as ->. unfold ren.
+    destruct (node_eqb u (Cmt c)) eqn:Eu; [apply node_eqb_spec in Eu; subst u|];
+      (destruct (node_eqb v (Cmt c)) eqn:Ev; [apply node_eqb_spec in Ev; subst v|]); reflexivity.
+  - apply relabel1_flows; try assumption.
+    intros Hin. apply node_eqb_false in E. apply E. f_equal.
+    apply (names_unique_spec _ Hu); [apply comps_In, Hin | apply comps_In, Hc | exact Hname].
+Qed.
+
+(* the operations that replace ONE compartment by an updated copy *)
+Definition updated_comp (g : graph) (o : op) : option (comp * comp) :=
+  match o with
+  | OSetLag nm e => option_map (fun c => (c, with_lag c e)) (find_compartment g nm)
+  | OSetBio nm e => option_map (fun c => (c, with_bio c e)) (find_compartment g nm)
+  | OSetInput nm e => option_map (fun c => (c, with_input c e)) (find_compartment g nm)
+  | OSetDose nm a =>
+      option_map (fun c => (c, with_doses c (match a with DNone => [] | DOne d => [d] | DMany l => l end)))
+                 (find_compartment g nm)
+  | OAddDose nm (DOne d) => option_map (fun c => (c, with_doses c (doses_prop c ++ [d]))) (find_compartment g nm)
+  | OAddDose nm (DMany l) => option_map (fun c => (c, with_doses c (doses_prop c ++ l))) (find_compartment g nm)
+  | ORemoveDose nm admid =>
+      option_map (fun c => (c, with_doses c (match admid_true admid with
+                                             | Some a => filter (fun x => negb (Z.eqb (dose_admid x) a)) (doses_prop c)
+                                             | None => [] end))) (find_compartment g nm)
+  | _ => None
+  end.
+
+Theorem update_ops_preserve_flows g o c c' u v :
+  WF g -> names_unique (comps g) = true -> updated_comp g o = Some (c, c') ->
+  In u (nodes g) -> In v (nodes g) ->
+  c_name c' = c_name c /\ c_amount c' = c_amount c /\
+  get_flow (fst (apply_op g o)) (ren (Cmt c) (Cmt c') u) (ren (Cmt c) (Cmt c') v) = get_flow g u v.
+Proof.
+  intros Hwf Hu Ho Hiu Hiv.
+  destruct o; cbn [updated_comp] in Ho; try discriminate;
+    try (destruct a; try discriminate);
+    cbn [apply_op]; destruct (find_compartment g nm) as [c0|] eqn:Ef; try discriminate;
+    cbn [option_map] in Ho; injection Ho as <- <-; cbn [fst];
+    destruct (find_compartment_In _ _ _ Ef) as [Hin _];
+    (split; [reflexivity | split; [reflexivity | apply relabel_same_name_flows; try assumption; reflexivity]]).
+Qed.
+
+(* ================================================================================================ *)
+(* 14. In-place relabelling moves the node to the END of the node order                             *)
+(* ================================================================================================ *)
+Definition without (n : node) (l : list node) : list node := filter (fun x => negb (node_eqb x n)) l.
+
+Lemma nodes_remove_node g n : nodes (remove_node g n) = without n (nodes g).
+Proof.
+  unfold remove_node, nodes, without. rewrite map_map. cbn [fst].
+  induction g as [|[w a] tl IH]; cbn [filter map fst]; [reflexivity|].
+  destruct (node_eqb w n); cbn [negb map fst]; [exact IH | f_equal; exact IH].
+Qed.
+
+Lemma nodes_add_edge_existing g u v r : In u (nodes g) -> In v (nodes g) -> nodes (add_edge g u v r) = nodes g.
+Proof. intros Hu Hv. rewrite add_edge_existing by assumption. apply nodes_update_adj. Qed.
+
+Lemma nodes_fold_add_edge (N : list node) : forall es g,
+  nodes g = N -> (forall u v r, In (u, v, r) es -> In u N /\ In v N) ->
+  nodes (fold_left (fun acc e => let '(u, v, r) := e in add_edge acc u v r) es g) = N.
+Proof.
+  induction es as [|[[u v] r] tl IH]; intros g Hg H; cbn [fold_left]; [exact Hg|].
+  apply IH.
+  - destruct (H u v r (or_introl eq_refl)) as [Hu Hv]. rewrite <- Hg in Hu, Hv.
+    rewrite (nodes_add_edge_existing g u v r Hu Hv). exact Hg.
+  - intros u' v' r' Hin. apply (H u' v' r'). right. exact Hin.
+Qed.
+
+Lemma without_In n l x : In x (without n l) <-> In x l /\ x <> n.
+Proof. unfold without. rewrite filter_In, negb_true_iff, node_eqb_false. tauto. Qed.
+
+Lemma in_edges_In g n w r : In (w, r) (in_edges g n) -> In w (nodes g).
+Proof.
+  unfold in_edges. intros H. apply in_flat_map in H. destruct H as [[w' a] [Hp H]]. cbn [fst snd] in H.
+  destruct (adj_lookup a n); [|destruct H]. destruct H as [H|[]]. injection H as <- _.
+  apply in_map_iff. exists (w', a). split; [reflexivity | exact Hp].
+Qed.
+
+Theorem relabel1_nodes_lemma g old new :
+  WF g -> In old (nodes g) -> ~ In new (nodes g) ->
+  nodes (relabel1 g old new) = without old (nodes g) ++ [new].
+Proof.
+  intros Hwf Hold Hnew. pose proof Hwf as [_ [Hn Hw]]. unfold relabel1.
+  assert (Hne : node_eqb new old = false) by (apply node_eqb_false; intros E; subst; contradiction).
+  assert (Hg1 : nodes (add_node g new) = nodes g ++ [new]).
+  { unfold add_node. rewrite (proj2 (has_node_false g new) Hnew). rewrite nodes_app. reflexivity. }
+  assert (Hg2 : nodes (remove_node (add_node g new) old) = without old (nodes g) ++ [new]).
+  { rewrite nodes_remove_node, Hg1. unfold without. rewrite filter_app. cbn [filter]. rewrite Hne. reflexivity. }
+  apply nodes_fold_add_edge; [exact Hg2|].
+  assert (Hnew_in : In new (without old (nodes g) ++ [new])) by (apply in_or_app; right; left; reflexivity).
+  assert (Hren : forall t, In t (nodes g) -> In (if node_eqb t old then new else t) (without old (nodes g) ++ [new])).
+  { intros t Ht. destruct (node_eqb t old) eqn:E; [exact Hnew_in|]. apply in_or_app. left. apply without_In.
+    split; [exact Ht | apply node_eqb_false, E]. }
+  intros u v r Hin. apply in_app_or in Hin. destruct Hin as [Hin|Hin]; apply in_map_iff in Hin; destruct Hin as [[w x] [E Hp]]; cbn [fst snd] in E.
+  - injection E as <- <- _. split; [exact Hnew_in|]. apply Hren.
+    rewrite adj_of_add_node in Hp. destruct (adj_of_cases g old) as [Hc|[Hc _]]; [eapply (Hw _ _ Hc), Hp | rewrite Hc in Hp; destruct Hp].
+  - injection E as <- <- _. split; [|exact Hnew_in]. apply Hren.
+    rewrite (in_edges_add_new g old new Hnew) in Hp. eapply in_edges_In, Hp.
+Qed.
+
+(* the compartments after an update operation: the old one is gone, the updated copy is LAST *)
+Lemma comps_of_nodes g : map Cmt (comps g) = filter is_cmt (nodes g).
+Proof.
+  induction g as [|[[|c] a] tl IH]; cbn [comps nodes map fst filter is_cmt]; [reflexivity | exact IH | f_equal; exact IH].
+Qed.
+
+Theorem relabel_same_name_unique g c c' :
+  WF g -> names_unique (comps g) = true -> In (Cmt c) (nodes g) -> c_name c' = c_name c ->
+  nodes (relabel g [(Cmt c, Cmt c')]) = (if comp_eqb c' c then nodes g else without (Cmt c) (nodes g) ++ [Cmt c']).
+Proof.
+  intros Hwf Hu Hc Hname. pose proof Hwf as [_ [Hn _]].
+  rewrite (relabel_single g (Cmt c) (Cmt c') Hn Hc). cbn [node_eqb].
+  destruct (comp_eqb c' c) eqn:E; [reflexivity|].
+  apply relabel1_nodes_lemma; try assumption.
+  intros Hin. apply comp_eqb_false in E. apply E.
+  apply (names_unique_spec _ Hu); [apply comps_In, Hin | apply comps_In, Hc | exact Hname].
+Qed.
